@@ -2240,6 +2240,1764 @@ theorem tms_file_site_block (header : List FieldDef) (preB postB : List BlockDef
     rw [this, List.map_map]
     rfl
 
+/-! ## 14. sinex_tms at file level: every entry, and TIMESERIES/DATA under the declared column names -/
+
+/-- the key of `self.data` a block parser of `SinexTmsParser` writes, by the name of its method -/
+def tmsKey (e : String) : String := if e = "timeseries_ref_coordinate" then "ref_coordinate" else e
+
+/-- the block's parser does not write `self.data[k]` -/
+def OtherKey (k : String) (b : BlockDef) : Prop := ∀ q, b.kind = .custom q → tmsKey (entryName q) ≠ k
+
+/-- a block parser of sinex_tms touches nothing but its own key -/
+theorem tmsStep_key_other (look : String → Option RawBlock) (k : String) (D D' : List (String × Val))
+    (b : BlockDef) (hb : OtherKey k b) (h : tmsStep look D b = some D') : dget? D' k = dget? D k := by
+  unfold tmsStep at h
+  cases hlook : look b.marker with
+  | none => simp only [hlook, Option.some.injEq] at h; subst h; rfl
+  | some r =>
+    cases hk : b.kind with
+    | dflt => simp [hlook, hk] at h
+    | matrix _ => simp [hlook, hk] at h
+    | custom q =>
+      have hq : tmsKey (entryName q) ≠ k := hb q hk
+      simp only [hlook, hk] at h
+      by_cases h1 : entryName q = "timeseries_data"
+      · simp only [h1, if_true] at h
+        have hq' : "timeseries_data" ≠ k := by rw [h1] at hq; exact hq
+        cases hn : tmsNames D with
+        | none => simp [hn] at h
+        | some names =>
+          cases hd : tmsData names r.lines with
+          | none => simp [hn, hd] at h
+          | some d =>
+            simp only [hn, hd, Option.bind_some, Option.map_some, Option.some.injEq] at h
+            subst h
+            exact dget_dset_ne _ _ _ _ hq'
+      · simp only [h1, if_false] at h
+        by_cases h2 : entryName q = "file_reference"
+        · simp only [h2, if_true] at h
+          have hq' : "file_reference" ≠ k := by rw [h2] at hq; exact hq
+          cases hf : fileRefTms (rowsOfTms b r) with
+          | none => simp [hf] at h
+          | some d =>
+            simp only [hf, Option.map_some, Option.some.injEq] at h
+            subst h
+            exact dget_dset_ne _ _ _ _ hq'
+        · simp only [h2, if_false] at h
+          by_cases h3 : entryName q = "site_antenna"
+          · simp only [h3, if_true] at h
+            have hq' : "site_antenna" ≠ k := by rw [h3] at hq; exact hq
+            cases hm : (rowsOfTms b r).mapM antennaRowTms with
+            | none => simp [hm] at h
+            | some rows' =>
+              simp only [hm, Option.map_some, Option.some.injEq] at h
+              subst h
+              exact dget_dset_ne _ _ _ _ hq'
+          · simp only [h3, if_false] at h
+            by_cases h5 : entryName q = "timeseries_ref_coordinate"
+            · have hq' : "ref_coordinate" ≠ k := by rw [h5] at hq; exact hq
+              have h4 : ¬ ("timeseries_ref_coordinate" = "site_id" ∨ "timeseries_ref_coordinate" = "site_receiver" ∨
+                  "timeseries_ref_coordinate" = "site_eccentricity") := by decide
+              simp only [h5, h4, if_false, if_true] at h
+              cases hrows : rowsOfTms b r with
+              | nil => simp [hrows] at h
+              | cons row rest =>
+                cases rest with
+                | nil =>
+                  simp only [hrows, Option.some.injEq] at h
+                  subst h
+                  exact dget_dset_ne _ _ _ _ hq'
+                | cons _ _ => simp [hrows] at h
+            · have hq' : entryName q ≠ k := by simpa [tmsKey, h5] using hq
+              by_cases h4 : entryName q = "site_id" ∨ entryName q = "site_receiver" ∨ entryName q = "site_eccentricity"
+              · simp only [h4, if_true, Option.some.injEq] at h
+                subst h
+                exact dget_dset_ne _ _ _ _ hq'
+              · simp only [h4, if_false, h5] at h
+                by_cases h6 : entryName q = "timeseries_columns"
+                · simp only [h6, if_true, Option.some.injEq] at h
+                  subst h
+                  exact dget_dset_ne _ _ _ _ (by rw [← h6]; exact hq')
+                · simp [h6] at h
+
+theorem tms_fold_key_other (look : String → Option RawBlock) (k : String) :
+    ∀ (bs : List BlockDef) (D D' : List (String × Val)), (∀ b ∈ bs, OtherKey k b) →
+      bs.foldlM (tmsStep look) D = some D' → dget? D' k = dget? D k := by
+  intro bs
+  induction bs with
+  | nil =>
+    intro D D' _ h
+    simp only [List.foldlM_nil, Option.pure_def, Option.some.injEq] at h
+    subst h; rfl
+  | cons b rest ih =>
+    intro D D' hall h
+    simp only [List.foldlM_cons, Option.bind_eq_bind] at h
+    cases hstep : tmsStep look D b with
+    | none => simp [hstep] at h
+    | some D1 =>
+      rw [hstep, Option.bind_some] at h
+      rw [ih D1 D' (fun b' hb' => hall b' (by simp [hb'])) h]
+      exact tmsStep_key_other look k D D1 b (hall b (by simp)) hstep
+
+/-- **one block among the others**: when `SinexTmsParser` returns, `data[k]` is what the parser of the only block
+writing `k` made of it, starting from a `data` that did not have `k` — the blocks declared before and after do
+not matter -/
+theorem tms_fold_block (look : String → Option RawBlock) (k : String) (pre post : List BlockDef) (b : BlockDef)
+    (hpre : ∀ b' ∈ pre, OtherKey k b') (hpost : ∀ b' ∈ post, OtherKey k b') (D0 D : List (String × Val))
+    (h : (pre ++ b :: post).foldlM (tmsStep look) D0 = some D) :
+    ∃ D1 D2, pre.foldlM (tmsStep look) D0 = some D1 ∧ tmsStep look D1 b = some D2 ∧
+      dget? D1 k = dget? D0 k ∧ dget? D k = dget? D2 k := by
+  rw [List.foldlM_append] at h
+  cases h1 : pre.foldlM (tmsStep look) D0 with
+  | none => simp [h1] at h
+  | some D1 =>
+    simp only [h1, Option.bind_eq_bind, Option.bind_some, List.foldlM_cons] at h
+    cases h2 : tmsStep look D1 b with
+    | none => simp [h2] at h
+    | some D2 =>
+      rw [h2, Option.bind_some] at h
+      exact ⟨D1, D2, rfl, h2, tms_fold_key_other look k pre D0 D1 hpre h1, tms_fold_key_other look k post D2 D hpost h⟩
+
+
+/-! ### dictionaries built key by key -/
+
+def keys {α} (d : List (String × α)) : List String := d.map (·.1)
+
+theorem mem_keys_dset {α} (d : List (String × α)) (k : String) (v : α) (x : String) :
+    x ∈ keys (dset d k v) → x ∈ keys d ∨ x = k := by
+  induction d with
+  | nil => intro h; simp [keys, dset] at h; exact Or.inr h
+  | cons p rest ih =>
+    obtain ⟨k', v'⟩ := p
+    by_cases hk : k' = k
+    · simp only [dset, hk, if_true, keys, List.map_cons, List.mem_cons]
+      intro h; exact Or.inl h
+    · simp only [dset, hk, if_false, keys, List.map_cons, List.mem_cons]
+      intro h
+      rcases h with h | h
+      · exact Or.inl (Or.inl h)
+      · rcases ih h with h' | h'
+        · exact Or.inl (Or.inr h')
+        · exact Or.inr h'
+
+theorem keys_dset_nodup {α} (d : List (String × α)) (k : String) (v : α) (h : (keys d).Nodup) :
+    (keys (dset d k v)).Nodup := by
+  induction d with
+  | nil => simp [keys, dset]
+  | cons p rest ih =>
+    obtain ⟨k', v'⟩ := p
+    simp only [keys, List.map_cons, List.nodup_cons] at h
+    by_cases hk : k' = k
+    · simp only [dset, hk, if_true, keys, List.map_cons, List.nodup_cons]
+      rw [← hk]; exact h
+    · simp only [dset, hk, if_false, keys, List.map_cons, List.nodup_cons]
+      refine ⟨fun hm => ?_, ih h.2⟩
+      rcases mem_keys_dset rest k v k' hm with h' | h'
+      · exact h.1 h'
+      · exact hk h'
+
+theorem dset_new {α} (d : List (String × α)) (k : String) (v : α) (h : k ∉ keys d) : dset d k v = d ++ [(k, v)] := by
+  induction d with
+  | nil => rfl
+  | cons p rest ih =>
+    obtain ⟨k', v'⟩ := p
+    simp only [keys, List.map_cons, List.mem_cons, not_or] at h
+    have : ¬ k' = k := fun e => h.1 e.symm
+    simp only [dset, this, if_false, List.cons_append]
+    rw [ih h.2]
+
+/-- writing the entries of a dictionary with distinct keys one by one into another one that has none of
+them appends them: `old.update(d)` -/
+theorem foldl_dset_append {α} (d : List (String × α)) : ∀ acc : List (String × α), (keys (acc ++ d)).Nodup →
+    d.foldl (fun acc kv => dset acc kv.1 kv.2) acc = acc ++ d := by
+  induction d with
+  | nil => intro acc _; simp
+  | cons p rest ih =>
+    intro acc h
+    obtain ⟨k, v⟩ := p
+    have hk : k ∉ keys acc := by
+      simp only [keys, List.map_append, List.map_cons] at h
+      have := (List.nodup_append.mp h).2.2
+      intro hm
+      exact this k hm k (by simp) rfl
+    simp only [List.foldl_cons]
+    rw [dset_new acc k v hk, ih (acc ++ [(k, v)]) (by simpa [List.append_assoc] using h)]
+    simp
+
+theorem foldlM_dset_keys {β} (key : β → String) (f : β → Option Val) :
+    ∀ (l : List β) (acc D : List (String × Val)), (keys acc).Nodup →
+      l.foldlM (fun D x => (f x).map fun v => dset D (key x) v) acc = some D → (keys D).Nodup := by
+  intro l
+  induction l with
+  | nil =>
+    intro acc D h hD
+    simp only [List.foldlM_nil, Option.pure_def, Option.some.injEq] at hD
+    subst hD; exact h
+  | cons a rest ih =>
+    intro acc D h hD
+    simp only [List.foldlM_cons, Option.bind_eq_bind] at hD
+    cases hv : f a with
+    | none => simp [hv] at hD
+    | some v =>
+      simp only [hv, Option.map_some, Option.bind_some] at hD
+      exact ih _ D (keys_dset_nodup acc _ v h) hD
+
+/-- a dictionary that is only ever written with `dset` keeps distinct keys -/
+theorem foldlM_step_keys {β} (f : List (String × Val) → β → Option (List (String × Val)))
+    (hf : ∀ acc x D', f acc x = some D' → ∃ k v, D' = dset acc k v) :
+    ∀ (l : List β) (acc D : List (String × Val)), (keys acc).Nodup → l.foldlM f acc = some D → (keys D).Nodup := by
+  intro l
+  induction l with
+  | nil =>
+    intro acc D ha hD
+    simp only [List.foldlM_nil, Option.pure_def, Option.some.injEq] at hD
+    subst hD; exact ha
+  | cons x rest ih =>
+    intro acc D ha hD
+    rw [List.foldlM_cons] at hD
+    cases hx : f acc x with
+    | none => rw [hx] at hD; simp at hD
+    | some D1 =>
+      rw [hx] at hD
+      obtain ⟨k, v, rfl⟩ := hf acc x D1 hx
+      exact ih _ D (keys_dset_nodup acc k v ha) hD
+
+/-- the dictionary `parse_timeseries_data` builds has one entry per (lower-cased) column name -/
+theorem tmsData_keys (names : List Str) (lines : List Str) (d : List (String × Val)) (h : tmsData names lines = some d) :
+    (keys d).Nodup := by
+  unfold tmsData at h
+  cases hr : wsRows lines with
+  | none => simp [hr] at h
+  | some rows =>
+    rw [hr, Option.bind_some] at h
+    exact foldlM_dset_keys (fun nc : Str × List Str => asString (lower nc.1)) (fun nc => tmsCol nc.1 nc.2) _ [] d
+      (by simp [keys]) h
+
+/-! ### what each block parser stores -/
+
+theorem tmsStep_columns (look : String → Option RawBlock) (D : List (String × Val)) (b : BlockDef) (q : String)
+    (r : RawBlock) (hr : look b.marker = some r) (hk : b.kind = .custom q) (hq : entryName q = "timeseries_columns") :
+    tmsStep look D b = some (dset D "timeseries_columns" (.dict (columns b.fields (rowsOfTms b r)))) := by
+  unfold tmsStep
+  simp only [hr, hk, hq]
+  have h1 : ¬ "timeseries_columns" = "timeseries_data" := by decide
+  have h2 : ¬ "timeseries_columns" = "file_reference" := by decide
+  have h3 : ¬ "timeseries_columns" = "site_antenna" := by decide
+  have h4 : ¬ ("timeseries_columns" = "site_id" ∨ "timeseries_columns" = "site_receiver" ∨
+      "timeseries_columns" = "site_eccentricity") := by decide
+  have h5 : ¬ "timeseries_columns" = "timeseries_ref_coordinate" := by decide
+  simp only [h1, h2, h3, h4, h5, if_false, if_true]
+
+theorem tmsStep_ref (look : String → Option RawBlock) (D : List (String × Val)) (b : BlockDef) (q : String)
+    (r : RawBlock) (hr : look b.marker = some r) (hk : b.kind = .custom q) (hq : entryName q = "timeseries_ref_coordinate")
+    (row : Row) (hrows : rowsOfTms b r = [row]) :
+    tmsStep look D b = some (dset D "ref_coordinate" (rowVal row)) := by
+  unfold tmsStep
+  simp only [hr, hk, hq, hrows]
+  have h1 : ¬ "timeseries_ref_coordinate" = "timeseries_data" := by decide
+  have h2 : ¬ "timeseries_ref_coordinate" = "file_reference" := by decide
+  have h3 : ¬ "timeseries_ref_coordinate" = "site_antenna" := by decide
+  have h4 : ¬ ("timeseries_ref_coordinate" = "site_id" ∨ "timeseries_ref_coordinate" = "site_receiver" ∨
+      "timeseries_ref_coordinate" = "site_eccentricity") := by decide
+  simp only [h1, h2, h3, h4, if_false, if_true]
+
+theorem tmsStep_antenna (look : String → Option RawBlock) (D : List (String × Val)) (b : BlockDef) (q : String)
+    (r : RawBlock) (hr : look b.marker = some r) (hk : b.kind = .custom q) (hq : entryName q = "site_antenna")
+    (rows' : List Row) (hm : (rowsOfTms b r).mapM antennaRowTms = some rows') :
+    tmsStep look D b = some (appendRows D "site_antenna" rows') := by
+  unfold tmsStep
+  simp only [hr, hk, hq, hm]
+  have h1 : ¬ "site_antenna" = "timeseries_data" := by decide
+  have h2 : ¬ "site_antenna" = "file_reference" := by decide
+  simp only [h1, h2, if_false, if_true, Option.map_some]
+
+theorem tmsStep_file_reference (look : String → Option RawBlock) (D : List (String × Val)) (b : BlockDef) (q : String)
+    (r : RawBlock) (hr : look b.marker = some r) (hk : b.kind = .custom q) (hq : entryName q = "file_reference")
+    (d : List (String × Val)) (hd : fileRefTms (rowsOfTms b r) = some d) (hD : dget? D "file_reference" = Option.none)
+    (hnd : (keys d).Nodup) :
+    tmsStep look D b = some (dset D "file_reference" (.dict d)) := by
+  unfold tmsStep
+  simp only [hr, hk, hq, hd, hD]
+  have h1 : ¬ "file_reference" = "timeseries_data" := by decide
+  simp only [h1, if_false, if_true, Option.map_some]
+  rw [foldl_dset_append d [] (by simpa using hnd)]
+  rfl
+
+theorem tmsStep_data (look : String → Option RawBlock) (D : List (String × Val)) (b : BlockDef) (q : String)
+    (r : RawBlock) (hr : look b.marker = some r) (hk : b.kind = .custom q) (hq : entryName q = "timeseries_data")
+    (names : List Str) (hn : tmsNames D = some names) (d : List (String × Val)) (hd : tmsData names r.lines = some d)
+    (hD : dget? D "timeseries_data" = Option.none) :
+    tmsStep look D b = some (dset D "timeseries_data" (.dict d)) := by
+  unfold tmsStep
+  simp only [hr, hk, hq, hn, hd, hD, if_true, Option.bind_some, Option.map_some]
+  rw [foldl_dset_append d [] (by simpa using tmsData_keys names r.lines d hd)]
+  rfl
+
+
+/-! ### from the file to `self._sinex` -/
+
+/-- the body holds a block of marker `m` with title parameters `ps` and content `c`, and no block of that
+marker before it -/
+def FirstBlock (segs : List Seg) (m : String) (ps : List Str) (c : List Str) : Prop :=
+  ∃ pre post h mk f, segs = pre ++ Seg.block h mk ps c f :: post ∧ asString mk = m ∧ m ∉ (blocksOf pre).map (·.marker)
+
+theorem firstBlock_look (segs : List Seg) (m : String) (ps c : List Str) (hfb : FirstBlock segs m ps c)
+    (w : List String) (hw : m ∈ w) : rawOf (expected w segs) m = some ⟨m, ps, dataLines c⟩ := by
+  obtain ⟨pre, post, h, mk, f, rfl, hmk, hfirst⟩ := hfb
+  rw [rawOf_expected]
+  simp only [hw, if_true]
+  rw [← hmk] at hfirst ⊢
+  exact rawOf_blocksOf_first h mk ps c f post pre hfirst
+
+/-- `SinexTmsParser.parse()` on the text of a file: the header line read to its end, and the block parsers
+applied to the first block of each declared marker -/
+theorem parseTms_file (header : List FieldDef) (blocks : List BlockDef) (F : SnxFile) (hwf : F.wf) (R : Result)
+    (hR : parseTmsFile header blocks F.text = some R) :
+    R.hdr = headerRow tmsTag header (fun l => l.length + 1) F.header ∧
+    ∃ D, R.data = .dict D ∧ assembleTms blocks (rawOf (expected (blocks.map (·.marker)) F.segs)) = some D := by
+  unfold parseTmsFile parseWith at hR
+  rw [readRaw_file _ _ _ _ _ hwf] at hR
+  simp only [Option.bind_some] at hR
+  cases hD : assembleTms blocks (rawOf (expected (blocks.map (·.marker)) F.segs)) with
+  | none => rw [hD] at hR; simp at hR
+  | some D =>
+    rw [hD] at hR
+    simp only [Option.map_some, Option.some.injEq] at hR
+    subst hR
+    exact ⟨rfl, D, rfl, rfl⟩
+
+/-- the lines of written records (with or without trailing blanks) -/
+def emitted (fs : List FieldDef) (W : Nat) (recs : List (Bool × List (Align × Str))) : List Str :=
+  recs.map fun r => emit r.1 (renderA (layoutOf fs W) r.2)
+
+/-- well-formed written records of a table whose last field ends at column `W` -/
+structure RecsOk (fs : List FieldDef) (W : Nat) (recs : List (Bool × List (Align × Str))) : Prop where
+  ne : fs ≠ []
+  sorted : Sorted (layoutOf fs W) = true
+  lead : leadOk (layoutOf fs W) = true
+  fits : ∀ r ∈ recs, Fits (layoutOf fs W) r.2 = true
+  vis : ∀ r ∈ recs, emit r.1 (renderA (layoutOf fs W) r.2) ≠ []
+
+/-- the rows `SinexTmsParser.parse_lines` makes of the first block of `b`'s marker -/
+theorem tms_file_rows (b : BlockDef) (W : Nat) (recs : List (Bool × List (Align × Str))) (hok : RecsOk b.fields W recs)
+    (segs : List Seg) (ps : List Str) (hfb : FirstBlock segs b.marker ps (emitted b.fields W recs))
+    (w : List String) (hw : b.marker ∈ w) :
+    ∃ r, rawOf (expected w segs) b.marker = some r ∧ r.params = ps ∧ r.lines = emitted b.fields W recs ∧
+      rowsOfTms b r = recs.map fun r => convertRow b.fields r.2 := by
+  have hdl : dataLines (emitted b.fields W recs) = emitted b.fields W recs := by
+    unfold dataLines emitted
+    apply List.filter_eq_self.mpr
+    intro l hl'
+    simp only [List.mem_map] at hl'
+    obtain ⟨r, hr, rfl⟩ := hl'
+    exact emit_lead _ hok.lead r (hok.fits r hr) (hok.vis r hr)
+  refine ⟨⟨b.marker, ps, emitted b.fields W recs⟩, ?_, rfl, rfl, ?_⟩
+  · rw [firstBlock_look segs b.marker ps _ hfb w hw, hdl]
+  · have := tms_block_roundtrip b.fields W hok.ne hok.sorted recs hok.fits hok.vis
+    simp only [rowsOfTms, emitted]
+    simpa using this
+
+/-! ### TIMESERIES/COLUMNS, REF_COORDINATE, SITE/ANTENNA, FILE/REFERENCE -/
+
+/-- **TIMESERIES/COLUMNS**: `data["timeseries_columns"]` is the table of the block's records, column by column -/
+theorem tms_columns_block (look : String → Option RawBlock) (pre post : List BlockDef) (b : BlockDef) (q : String)
+    (hk : b.kind = .custom q) (hq : entryName q = "timeseries_columns")
+    (hpre : ∀ b' ∈ pre, OtherKey "timeseries_columns" b') (hpost : ∀ b' ∈ post, OtherKey "timeseries_columns" b')
+    (r : RawBlock) (hr : look b.marker = some r) (D : List (String × Val))
+    (h : assembleTms (pre ++ b :: post) look = some D) :
+    dget? D "timeseries_columns" = some (.dict (columns b.fields (rowsOfTms b r))) := by
+  obtain ⟨D1, D2, _, h2, _, h4⟩ := tms_fold_block look "timeseries_columns" pre post b hpre hpost [] D h
+  rw [tmsStep_columns look D1 b q r hr hk hq] at h2
+  simp only [Option.some.injEq] at h2
+  rw [h4, ← h2, dget_dset_self]
+
+/-- **TIMESERIES/REF_COORDINATE** (exactly one record, else `data.item()` raises): `data["ref_coordinate"]` is the
+dictionary of that record -/
+theorem tms_ref_block (look : String → Option RawBlock) (pre post : List BlockDef) (b : BlockDef) (q : String)
+    (hk : b.kind = .custom q) (hq : entryName q = "timeseries_ref_coordinate")
+    (hpre : ∀ b' ∈ pre, OtherKey "ref_coordinate" b') (hpost : ∀ b' ∈ post, OtherKey "ref_coordinate" b')
+    (r : RawBlock) (hr : look b.marker = some r) (row : Row) (hrows : rowsOfTms b r = [row]) (D : List (String × Val))
+    (h : assembleTms (pre ++ b :: post) look = some D) :
+    dget? D "ref_coordinate" = some (rowVal row) := by
+  obtain ⟨D1, D2, _, h2, _, h4⟩ := tms_fold_block look "ref_coordinate" pre post b hpre hpost [] D h
+  rw [tmsStep_ref look D1 b q r hr hk hq row hrows] at h2
+  simp only [Option.some.injEq] at h2
+  rw [h4, ← h2, dget_dset_self]
+
+/-- … and the parser raises on a REF_COORDINATE block with no or several records -/
+theorem tms_ref_block_raises (look : String → Option RawBlock) (pre post : List BlockDef) (b : BlockDef) (q : String)
+    (hk : b.kind = .custom q) (hq : entryName q = "timeseries_ref_coordinate")
+    (r : RawBlock) (hr : look b.marker = some r) (hrows : (rowsOfTms b r).length ≠ 1) :
+    assembleTms (pre ++ b :: post) look = Option.none := by
+  unfold assembleTms
+  rw [List.foldlM_append]
+  cases h1 : pre.foldlM (tmsStep look) [] with
+  | none => rfl
+  | some D1 =>
+    have hstep : tmsStep look D1 b = Option.none := by
+      unfold tmsStep
+      simp only [hr, hk, hq]
+      have h1 : ¬ "timeseries_ref_coordinate" = "timeseries_data" := by decide
+      have h2 : ¬ "timeseries_ref_coordinate" = "file_reference" := by decide
+      have h3 : ¬ "timeseries_ref_coordinate" = "site_antenna" := by decide
+      have h4 : ¬ ("timeseries_ref_coordinate" = "site_id" ∨ "timeseries_ref_coordinate" = "site_receiver" ∨
+          "timeseries_ref_coordinate" = "site_eccentricity") := by decide
+      simp only [h1, h2, h3, h4, if_false, if_true]
+      cases hrr : rowsOfTms b r with
+      | nil => rfl
+      | cons x rest =>
+        cases rest with
+        | nil => rw [hrr] at hrows; simp at hrows
+        | cons _ _ => rfl
+    simp [hstep]
+
+/-- **SITE/ANTENNA**: `data["site_antenna"]` holds one dictionary per record, in order, the antenna field split into
+antenna type and radome type (two words, else the parser raises) -/
+theorem tms_antenna_block (look : String → Option RawBlock) (pre post : List BlockDef) (b : BlockDef) (q : String)
+    (hk : b.kind = .custom q) (hq : entryName q = "site_antenna")
+    (hpre : ∀ b' ∈ pre, OtherKey "site_antenna" b') (hpost : ∀ b' ∈ post, OtherKey "site_antenna" b')
+    (r : RawBlock) (hr : look b.marker = some r) (D : List (String × Val))
+    (h : assembleTms (pre ++ b :: post) look = some D) :
+    ∃ rows', (rowsOfTms b r).mapM antennaRowTms = some rows' ∧ dget? D "site_antenna" = some (.list (rows'.map rowVal)) := by
+  obtain ⟨D1, D2, _, h2, h3, h4⟩ := tms_fold_block look "site_antenna" pre post b hpre hpost [] D h
+  cases hm : (rowsOfTms b r).mapM antennaRowTms with
+  | none =>
+    exfalso
+    unfold tmsStep at h2
+    have h1 : ¬ "site_antenna" = "timeseries_data" := by decide
+    have h2' : ¬ "site_antenna" = "file_reference" := by decide
+    simp [hr, hk, hq, hm, h1, h2'] at h2
+  | some rows' =>
+    rw [tmsStep_antenna look D1 b q r hr hk hq rows' hm] at h2
+    simp only [Option.some.injEq] at h2
+    refine ⟨rows', rfl, ?_⟩
+    rw [h4, ← h2]
+    unfold appendRows
+    rw [dget_dset_self, h3]
+    rfl
+
+/-- the record with the antenna field split in two -/
+theorem antennaRowTms_spec (r : Row) (a rad : Str) (h : split (cellStr (lookup r "antenna_type")) = [a, rad]) :
+    antennaRowTms r = some ((r.map fun (k, c) => if k = "antenna_type" then (k, Cell.str a) else (k, c)) ++
+      [("radome_type", .str rad)]) := by
+  simp [antennaRowTms, h]
+
+/-- **FILE/REFERENCE**: `data["file_reference"]` maps the lower-cased first word of each record's first field to its
+second field (a later record with the same word replaces the value) -/
+theorem tms_file_reference_block (look : String → Option RawBlock) (pre post : List BlockDef) (b : BlockDef) (q : String)
+    (hk : b.kind = .custom q) (hq : entryName q = "file_reference")
+    (hpre : ∀ b' ∈ pre, OtherKey "file_reference" b') (hpost : ∀ b' ∈ post, OtherKey "file_reference" b')
+    (r : RawBlock) (hr : look b.marker = some r) (D : List (String × Val))
+    (h : assembleTms (pre ++ b :: post) look = some D) :
+    ∃ d, fileRefTms (rowsOfTms b r) = some d ∧ dget? D "file_reference" = some (.dict d) := by
+  obtain ⟨D1, D2, _, h2, h3, h4⟩ := tms_fold_block look "file_reference" pre post b hpre hpost [] D h
+  cases hd : fileRefTms (rowsOfTms b r) with
+  | none =>
+    exfalso
+    unfold tmsStep at h2
+    have h1 : ¬ "file_reference" = "timeseries_data" := by decide
+    simp [hr, hk, hq, hd, h1] at h2
+  | some d =>
+    have hnd : (keys d).Nodup := by
+      unfold fileRefTms at hd
+      refine foldlM_step_keys _ ?_ _ [] d (by simp [keys]) hd
+      intro acc x D' hx
+      split at hx
+      · simp at hx
+      · simp only [Option.some.injEq] at hx
+        exact ⟨_, _, hx.symm⟩
+    refine ⟨d, rfl, ?_⟩
+    have hD1 : dget? D1 "file_reference" = Option.none := by rw [h3]; rfl
+    rw [tmsStep_file_reference look D1 b q r hr hk hq d hd hD1 hnd] at h2
+    simp only [Option.some.injEq] at h2
+    rw [h4, ← h2, dget_dset_self]
+
+
+/-! ### TIMESERIES/DATA under the names the COLUMNS block declares -/
+
+/-- the field table of TIMESERIES/COLUMNS -/
+def tmsColumnsFields : List FieldDef :=
+  [⟨"col", 1, .f8, .none⟩, ⟨"name", 6, .u 20, .none⟩, ⟨"unit", 27, .u 21, .none⟩, ⟨"description", 49, .u 100, .utf8⟩]
+
+theorem tms_columns_table :
+    (tmsBlocks.find? (·.marker = "TIMESERIES/COLUMNS")).map (·.fields) = some tmsColumnsFields := by decide +kernel
+
+/-- the column names `parse_timeseries_data` reads from `data["timeseries_columns"]["name"]` -/
+theorem tmsNames_columns (D : List (String × Val)) (rows : List Row)
+    (h : dget? D "timeseries_columns" = some (.dict (columns tmsColumnsFields rows))) :
+    tmsNames D = some (rows.map fun r => cellStr (lookup r "name")) := by
+  have h0 : validName "col" = "col" := by decide +kernel
+  have h1 : validName "name" = "name" := by decide +kernel
+  have h2 : ¬ "col" = "name" := by decide
+  unfold tmsNames
+  rw [h]
+  simp [columns, kept, tmsColumnsFields, dget?, h0, h1, h2, List.map_map, Function.comp_def]
+
+/-- the name a COLUMNS record declares: the text of its second field (at most 20 characters are kept) -/
+theorem columns_name_record (a0 a1 a2 a3 : Align) (c n u d : Str) :
+    cellStr (lookup (convertRow tmsColumnsFields [(a0, c), (a1, n), (a2, u), (a3, d)]) "name") = n.take 20 := by
+  have h0 : validName "col" = "col" := by decide +kernel
+  have h1 : validName "name" = "name" := by decide +kernel
+  have h2 : ¬ "col" = "name" := by decide
+  simp [convertRow, tmsColumnsFields, lookup, convertCell, cellStr, h0, h1, h2]
+
+/-- **TIMESERIES/DATA, as `SinexTmsParser` stores it**: with the COLUMNS block declared before the DATA block,
+`data["timeseries_data"]` is exactly the dictionary `parse_timeseries_data` makes of the DATA lines under the names
+of the COLUMNS records — whatever other blocks are declared and present -/
+theorem tms_data_block (look : String → Option RawBlock) (preC mid post : List BlockDef) (bc bd : BlockDef) (qc qd : String)
+    (hkc : bc.kind = .custom qc) (hqc : entryName qc = "timeseries_columns") (hfc : bc.fields = tmsColumnsFields)
+    (hkd : bd.kind = .custom qd) (hqd : entryName qd = "timeseries_data")
+    (hpreC : ∀ b' ∈ preC, OtherKey "timeseries_columns" b' ∧ OtherKey "timeseries_data" b')
+    (hmid : ∀ b' ∈ mid, OtherKey "timeseries_columns" b' ∧ OtherKey "timeseries_data" b')
+    (hpost : ∀ b' ∈ post, OtherKey "timeseries_data" b')
+    (rc rd : RawBlock) (hrc : look bc.marker = some rc) (hrd : look bd.marker = some rd) (D : List (String × Val))
+    (h : assembleTms (preC ++ bc :: mid ++ bd :: post) look = some D) :
+    ∃ d, tmsData ((rowsOfTms bc rc).map fun r => cellStr (lookup r "name")) rd.lines = some d ∧
+      dget? D "timeseries_data" = some (.dict d) := by
+  have hbcd : OtherKey "timeseries_data" bc := by
+    intro q hq
+    rw [hkc] at hq
+    simp only [ParserKind.custom.injEq] at hq
+    subst hq
+    rw [hqc]; decide
+  have hpre : ∀ b' ∈ preC ++ bc :: mid, OtherKey "timeseries_data" b' := by
+    intro b' hb'
+    simp only [List.mem_append, List.mem_cons] at hb'
+    rcases hb' with h1 | rfl | h1
+    · exact (hpreC b' h1).2
+    · exact hbcd
+    · exact (hmid b' h1).2
+  have hassoc : preC ++ bc :: mid ++ bd :: post = (preC ++ bc :: mid) ++ bd :: post := by simp
+  unfold assembleTms at h
+  rw [hassoc] at h
+  obtain ⟨D1, D2, h1, h2, h3, h4⟩ := tms_fold_block look "timeseries_data" (preC ++ bc :: mid) post bd hpre hpost [] D h
+  -- the COLUMNS block was applied before
+  obtain ⟨E1, E2, _, e2, _, e4⟩ := tms_fold_block look "timeseries_columns" preC mid bc (fun b' hb' => (hpreC b' hb').1)
+    (fun b' hb' => (hmid b' hb').1) [] D1 h1
+  rw [tmsStep_columns look E1 bc qc rc hrc hkc hqc] at e2
+  simp only [Option.some.injEq] at e2
+  have hcols : dget? D1 "timeseries_columns" = some (.dict (columns tmsColumnsFields (rowsOfTms bc rc))) := by
+    rw [e4, ← e2, dget_dset_self, hfc]
+  have hnames := tmsNames_columns D1 _ hcols
+  have hD1 : dget? D1 "timeseries_data" = Option.none := by rw [h3]; rfl
+  cases hd : tmsData ((rowsOfTms bc rc).map fun r => cellStr (lookup r "name")) rd.lines with
+  | none =>
+    exfalso
+    unfold tmsStep at h2
+    simp [hrd, hkd, hqd, hnames, hd] at h2
+  | some d =>
+    rw [tmsStep_data look D1 bd qd rd hrd hkd hqd _ hnames d hd hD1] at h2
+    simp only [Option.some.injEq] at h2
+    exact ⟨d, rfl, by rw [h4, ← h2, dget_dset_self]⟩
+
+/-- **tms_file_data_roundtrip**: `SinexTmsParser` (COLUMNS declared before DATA, each the only block writing its
+entry) reads a file that holds — anywhere, in any order, among whatever other blocks and comment lines — a
+TIMESERIES/COLUMNS block (first of its marker; records written into the columns of its table, with or without trailing
+blanks) and a TIMESERIES/DATA block (first of its marker; every record `n > 0` tokens separated by blanks).  Then
+`data["timeseries_data"]` is a dictionary in which the lower-cased name of the `j`-th COLUMNS record holds the `j`-th
+token of every DATA record, in record order: as text for the date columns, as `float(token)` otherwise
+(`tmsCol`).  A second TIMESERIES/DATA block further down (another station's table appended to the file) is not read
+(`file_invisible`): the parser handles one station per file. -/
+theorem tms_file_data_roundtrip (header : List FieldDef) (preC mid post : List BlockDef) (bc bd : BlockDef) (qc qd : String)
+    (hkc : bc.kind = .custom qc) (hqc : entryName qc = "timeseries_columns") (hfc : bc.fields = tmsColumnsFields)
+    (hkd : bd.kind = .custom qd) (hqd : entryName qd = "timeseries_data")
+    (hpreC : ∀ b' ∈ preC, OtherKey "timeseries_columns" b' ∧ OtherKey "timeseries_data" b')
+    (hmid : ∀ b' ∈ mid, OtherKey "timeseries_columns" b' ∧ OtherKey "timeseries_data" b')
+    (hpost : ∀ b' ∈ post, OtherKey "timeseries_data" b')
+    (F : SnxFile) (hwf : F.wf)
+    (W : Nat) (crecs : List (Bool × List (Align × Str))) (hcok : RecsOk bc.fields W crecs) (psc : List Str)
+    (hfbc : FirstBlock F.segs bc.marker psc (emitted bc.fields W crecs))
+    (drecs : List (List (Str × Str) × Str)) (n : Nat) (hn : 0 < n) (hne : drecs ≠ [])
+    (hdok : ∀ r ∈ drecs, PadsOk r.1 = true ∧ isBlank r.2 = true ∧ r.1.length = n)
+    (hdlead : ∀ r ∈ drecs, startsWith [' '] (wsLine r) = true) (psd : List Str)
+    (hfbd : FirstBlock F.segs bd.marker psd (drecs.map wsLine))
+    (hnd : ((crecs.map fun r => cellStr (lookup (convertRow bc.fields r.2) "name")).map fun nm => asString (lower nm)).Nodup)
+    (hlen : crecs.length ≤ n)
+    (R : Result) (hR : parseTmsFile header (preC ++ bc :: mid ++ bd :: post) F.text = some R) :
+    R.hdr = headerRow tmsTag header (fun l => l.length + 1) F.header ∧
+    ∃ D d, R.data = .dict D ∧ dget? D "timeseries_data" = some (.dict d) ∧
+      ∀ (j : Nat) (hj : j < crecs.length),
+        dget? d (asString (lower (cellStr (lookup (convertRow bc.fields (crecs[j]).2) "name")))) =
+          tmsCol (cellStr (lookup (convertRow bc.fields (crecs[j]).2) "name"))
+            (drecs.map fun r => (wsTokens r).getD j []) := by
+  obtain ⟨hhdr, D, hRD, hD⟩ := parseTms_file header _ F hwf R hR
+  refine ⟨hhdr, ?_⟩
+  have hmc : bc.marker ∈ (preC ++ bc :: mid ++ bd :: post).map (·.marker) := by simp
+  have hmd : bd.marker ∈ (preC ++ bc :: mid ++ bd :: post).map (·.marker) := by simp
+  obtain ⟨rc, hrc, _, _, hrowsc⟩ := tms_file_rows bc W crecs hcok F.segs psc hfbc _ hmc
+  have hrd := firstBlock_look F.segs bd.marker psd _ hfbd _ hmd
+  have hdl : dataLines (drecs.map wsLine) = drecs.map wsLine := by
+    unfold dataLines
+    apply List.filter_eq_self.mpr
+    intro l hl
+    simp only [List.mem_map] at hl
+    obtain ⟨r, hr, rfl⟩ := hl
+    exact hdlead r hr
+  rw [hdl] at hrd
+  obtain ⟨d, hd, hget⟩ := tms_data_block _ preC mid post bc bd qc qd hkc hqc hfc hkd hqd hpreC hmid hpost rc _ hrc hrd D hD
+  refine ⟨D, d, hRD, hget, ?_⟩
+  intro j hj
+  rw [hrowsc, List.map_map] at hd
+  simp only at hd
+  have := tms_data_roundtrip (crecs.map fun r => cellStr (lookup (convertRow bc.fields r.2) "name")) drecs n hn hdok hne hnd
+    (by simpa using hlen) d (by simpa [Function.comp_def] using hd) j (by simpa using hj)
+  simpa using this
+
+
+/-- the declared blocks of `SinexTmsParser` satisfy the hypotheses of `tms_file_data_roundtrip` -/
+example : ∃ preC bc bd, tmsBlocks = preC ++ bc :: [] ++ bd :: [] ∧
+    bc.kind = .custom "SinexTmsParser.parse_timeseries_columns" ∧
+    entryName "SinexTmsParser.parse_timeseries_columns" = "timeseries_columns" ∧ bc.fields = tmsColumnsFields ∧
+    bd.kind = .custom "SinexTmsParser.parse_timeseries_data" ∧ entryName "SinexTmsParser.parse_timeseries_data" = "timeseries_data" ∧
+    (∀ b' ∈ preC, OtherKey "timeseries_columns" b' ∧ OtherKey "timeseries_data" b') := by
+  refine ⟨tmsBlocks.take 6, tmsBlocks[6], tmsBlocks[7], by decide +kernel, by decide +kernel, by decide +kernel,
+    by decide +kernel, by decide +kernel, by decide +kernel, ?_⟩
+  intro b' hb'
+  simp only [tmsBlocks, List.take, List.mem_cons, List.not_mem_nil, or_false] at hb'
+  rcases hb' with rfl | rfl | rfl | rfl | rfl | rfl <;>
+    (constructor <;> (intro q hq; simp only [ParserKind.custom.injEq] at hq; subst hq; decide +kernel))
+
+/-! ## 15. Per-site tables exactly: which rows sit under which site, in which order -/
+
+/-- the rows stored for site `k` under entry `e` (`data[k][e]`, empty when absent) -/
+def entryRows (e : String) (T : SiteTable) (k : String) : List Row := ((dget? T k).bind fun s => dget? s e).getD []
+
+theorem entryRows_addRow_false (e : String) (T : SiteTable) (key : String) (r : Row) (k : String) :
+    entryRows e (addRow false e T key r) k = if k = key then entryRows e T k ++ [r] else entryRows e T k := by
+  unfold addRow entryRows
+  by_cases hk : k = key
+  · subst hk
+    simp only [Bool.false_eq_true, if_false, dget_dset_self, Option.bind_some, Option.getD_some, if_true]
+    cases dget? T k <;> simp [dget?]
+  · simp only [hk, if_false]
+    rw [dget_dset_ne _ _ _ _ (Ne.symm hk)]
+
+theorem entryRows_addRow_true (e : String) (T : SiteTable) (key : String) (r : Row) (k : String) :
+    entryRows e (addRow true e T key r) k = if k = key then [r] else entryRows e T k := by
+  unfold addRow entryRows
+  by_cases hk : k = key
+  · subst hk
+    simp only [if_true, dget_dset_self, Option.bind_some, Option.getD_some]
+  · simp only [hk, if_false]
+    rw [dget_dset_ne _ _ _ _ (Ne.symm hk)]
+
+theorem entryRows_addRow_other (single : Bool) (e e' : String) (hne : e' ≠ e) (T : SiteTable) (key : String) (r : Row)
+    (k : String) : entryRows e (addRow single e' T key r) k = entryRows e T k := by
+  unfold addRow entryRows
+  by_cases hk : k = key
+  · subst hk
+    simp only [dget_dset_self, Option.bind_some]
+    rw [dget_dset_ne _ _ _ _ hne]
+    cases dget? T k <;> simp [dget?]
+  · rw [dget_dset_ne _ _ _ _ (Ne.symm hk)]
+
+/-- **regrouping, site by site**: after `append`-mode regrouping, site `k` holds what it held plus exactly the
+block's rows whose key is `k`, in the block's order -/
+theorem entryRows_regroup_false (e : String) (keyOf : Row → String) (f : Row → Row) (rows : List Row) (k : String) :
+    ∀ T : SiteTable, entryRows e (regroup false e keyOf f T rows) k =
+      entryRows e T k ++ (rows.filter fun r => keyOf r = k).map f := by
+  induction rows with
+  | nil => intro T; simp [regroup]
+  | cons r rows ih =>
+    intro T
+    simp only [regroup, List.foldl_cons] at ih ⊢
+    rw [ih, entryRows_addRow_false]
+    by_cases hk : keyOf r = k
+    · subst hk
+      simp [List.filter_cons]
+    · have hk' : ¬ k = keyOf r := fun e => hk e.symm
+      simp [List.filter_cons, hk, hk']
+
+/-- in `data[site][entry] = row` mode (SITE/ID) the last row of a key wins -/
+theorem entryRows_regroup_true (e : String) (keyOf : Row → String) (f : Row → Row) (rows : List Row) (k : String) :
+    ∀ T : SiteTable, entryRows e (regroup true e keyOf f T rows) k =
+      match (rows.filter fun r => keyOf r = k).getLast? with
+      | some r => [f r]
+      | Option.none => entryRows e T k := by
+  induction rows with
+  | nil => intro T; simp [regroup]
+  | cons r rows ih =>
+    intro T
+    simp only [regroup, List.foldl_cons] at ih ⊢
+    rw [ih, entryRows_addRow_true]
+    by_cases hk : keyOf r = k
+    · subst hk
+      simp only [List.filter_cons, decide_true, if_true, List.getLast?_cons]
+      cases (rows.filter fun r' => decide (keyOf r' = keyOf r)).getLast? <;> simp
+    · have hk' : ¬ k = keyOf r := fun e => hk e.symm
+      simp only [List.filter_cons, hk, decide_false, hk', if_false, Bool.false_eq_true]
+
+theorem entryRows_regroup_other (single : Bool) (e e' : String) (hne : e' ≠ e) (keyOf : Row → String) (f : Row → Row)
+    (rows : List Row) (k : String) : ∀ T : SiteTable, entryRows e (regroup single e' keyOf f T rows) k = entryRows e T k := by
+  induction rows with
+  | nil => intro T; rfl
+  | cons r rows ih =>
+    intro T
+    simp only [regroup, List.foldl_cons] at ih ⊢
+    rw [ih, entryRows_addRow_other single e e' hne]
+
+/-- **discontinuities / events, site by site**: in the table of `disc_file_roundtrip`, site `k` holds exactly the
+written records whose (lower-cased) site code is `k`, without that field, in file order -/
+theorem disc_site_rows (e : String) (rows : List Row) (k : String) :
+    entryRows e (regroup false e siteKey dropSiteCode [] rows) k =
+      (rows.filter fun r => siteKey r = k).map dropSiteCode := by
+  rw [entryRows_regroup_false]
+  simp [entryRows, dget?]
+
+
+/-! ### sinex_site -/
+
+/-- what one block does to the rows of site `k` under entry `e` -/
+theorem siteStep_entry (look : String → Option RawBlock) (e : String) (he2 : e ≠ "file_comment")
+    (st st1 : SiteTable × Option Str) (b : BlockDef) (k : String) (hstep : siteStep look st b = some st1) :
+    entryRows e st1.1 k =
+      if e = "site_id" then
+        (match ((contrib e look b).filter fun r => siteKey r = k).getLast? with
+         | some r => [r]
+         | Option.none => entryRows e st.1 k)
+      else entryRows e st.1 k ++ (contrib e look b).filter fun r => siteKey r = k := by
+  unfold siteStep at hstep
+  unfold contrib
+  cases hlook : look b.marker with
+  | none =>
+    simp only [hlook, Option.some.injEq] at hstep
+    subst hstep
+    by_cases h : e = "site_id" <;> simp [h]
+  | some r =>
+    cases hk : b.kind with
+    | dflt => simp [hlook, hk] at hstep
+    | matrix _ => simp [hlook, hk] at hstep
+    | custom q =>
+      simp only [hlook, hk] at hstep ⊢
+      by_cases hq : entryName q = e
+      · have h1 : ¬ entryName q = "file_comment" := by rw [hq]; exact he2
+        simp only [h1, if_false] at hstep
+        by_cases hid : e = "site_id"
+        · have hq' : entryName q = "site_id" := by rw [hq]; exact hid
+          have hna : ¬ e = "site_antenna" := by rw [hid]; decide
+          simp only [hq', if_true, Option.some.injEq] at hstep
+          subst hstep
+          simp only [hq, if_true, hid, hna, if_false]
+          have := entryRows_regroup_true "site_id" siteKey id (rowsOf b 81 r) k st.1
+          simpa [hid] using this
+        · have h2 : ¬ entryName q = "site_id" := by rw [hq]; exact hid
+          simp only [h2, if_false] at hstep
+          by_cases ha : entryName q = "site_antenna"
+          · have hea : e = "site_antenna" := by rw [← hq]; exact ha
+            simp only [ha, if_true] at hstep
+            cases hm : (rowsOf b 81 r).mapM antennaRow with
+            | none => simp [hm] at hstep
+            | some rows' =>
+              simp only [hm, Option.map_some, Option.some.injEq] at hstep
+              subst hstep
+              simp only [hq, if_true, hid, if_false, hea, Option.getD_some]
+              have := entryRows_regroup_false "site_antenna" siteKey id rows' k st.1
+              simpa using this
+          · have hea : ¬ e = "site_antenna" := by rw [← hq]; exact ha
+            simp only [ha, if_false, Option.some.injEq] at hstep
+            subst hstep
+            simp only [hq, if_true, hid, hea, if_false]
+            have := entryRows_regroup_false e siteKey id (rowsOf b 81 r) k st.1
+            simpa using this
+      · -- a block of another entry: nothing changes for `e`
+        have hsame : entryRows e st1.1 k = entryRows e st.1 k := by
+          by_cases h1 : entryName q = "file_comment"
+          · simp only [h1, if_true] at hstep
+            cases hf : refFrame (rowsOf b 81 r) with
+            | none => simp [hf] at hstep
+            | some fr =>
+              simp only [hf, Option.map_some, Option.some.injEq] at hstep
+              subst hstep; rfl
+          · simp only [h1, if_false] at hstep
+            by_cases h2 : entryName q = "site_id"
+            · simp only [h2, if_true, Option.some.injEq] at hstep
+              subst hstep
+              exact entryRows_regroup_other true e "site_id" (by rw [← h2]; exact hq) _ _ _ k _
+            · simp only [h2, if_false] at hstep
+              by_cases ha : entryName q = "site_antenna"
+              · simp only [ha, if_true] at hstep
+                cases hm : (rowsOf b 81 r).mapM antennaRow with
+                | none => simp [hm] at hstep
+                | some rows' =>
+                  simp only [hm, Option.map_some, Option.some.injEq] at hstep
+                  subst hstep
+                  exact entryRows_regroup_other false e "site_antenna" (by rw [← ha]; exact hq) _ _ _ k _
+              · simp only [ha, if_false, Option.some.injEq] at hstep
+                subst hstep
+                exact entryRows_regroup_other false e (entryName q) hq _ _ _ k _
+        rw [hsame]
+        by_cases h : e = "site_id"
+        · have hq2 : ¬ entryName q = "site_id" := by rw [← h]; exact hq
+          simp [h, hq2]
+        · simp [h, hq]
+
+/-- **sinex_site, site by site** (before the reference-frame step): under every entry but `site_id`, site `k` holds
+what it held plus exactly the rows of that entry's blocks whose site code is `k`, in file order; under `site_id` it
+holds the last SITE/ID record of that site code -/
+theorem site_fold_entry (look : String → Option RawBlock) (e : String) (he2 : e ≠ "file_comment") (k : String) :
+    ∀ (bs : List BlockDef) (st st' : SiteTable × Option Str), bs.foldlM (siteStep look) st = some st' →
+      entryRows e st'.1 k =
+        if e = "site_id" then
+          (match ((bs.flatMap (contrib e look)).filter fun r => siteKey r = k).getLast? with
+           | some r => [r]
+           | Option.none => entryRows e st.1 k)
+        else entryRows e st.1 k ++ (bs.flatMap (contrib e look)).filter fun r => siteKey r = k := by
+  intro bs
+  induction bs with
+  | nil =>
+    intro st st' h
+    simp only [List.foldlM_nil, Option.pure_def, Option.some.injEq] at h
+    subst h
+    by_cases h : e = "site_id" <;> simp [h]
+  | cons b rest ih =>
+    intro st st' h
+    simp only [List.foldlM_cons, Option.bind_eq_bind] at h
+    cases hstep : siteStep look st b with
+    | none => simp [hstep] at h
+    | some st1 =>
+      rw [hstep, Option.bind_some] at h
+      rw [ih st1 st' h, siteStep_entry look e he2 st st1 b k hstep]
+      by_cases hid : e = "site_id"
+      · simp only [hid, if_true, List.flatMap_cons, List.filter_append, List.getLast?_append]
+        cases (List.filter (fun r => decide (siteKey r = k)) (List.flatMap (contrib "site_id" look) rest)).getLast? <;> simp
+      · simp only [hid, if_false, List.flatMap_cons, List.filter_append, List.append_assoc]
+
+
+theorem dget_map_val {β} (g : String → β → β) (T : List (String × β)) (key : String) :
+    dget? (T.map fun kv => (kv.1, g kv.1 kv.2)) key = (dget? T key).map (g key) := by
+  induction T with
+  | nil => rfl
+  | cons p rest ih =>
+    obtain ⟨k, v⟩ := p
+    by_cases h : k = key
+    · subst h; simp [dget?]
+    · simp [dget?, h, ih]
+
+def frameRows (fr : Str) (e' : String) (rows : List Row) : List Row :=
+  if e' = "solution_estimate" then rows.map fun r => dset r "ref_frame" (Cell.str fr) else rows
+
+def frameEntries (fr : Str) (site : String) (entries : List (String × List Row)) : List (String × List Row) :=
+  if site.length = 4 then entries.map fun ev => (ev.1, frameRows fr ev.1 ev.2) else entries
+
+theorem addRefFrame_eq (fr : Str) (T : SiteTable) :
+    addRefFrame (some fr) T = T.map fun kv => (kv.1, frameEntries fr kv.1 kv.2) := by
+  simp only [addRefFrame]
+  apply List.map_congr_left
+  intro kv _
+  obtain ⟨site, entries⟩ := kv
+  by_cases h4 : site.length = 4
+  · simp only [h4, if_true, frameEntries, Prod.mk.injEq, true_and]
+    apply List.map_congr_left
+    intro ev _
+    obtain ⟨e', rows⟩ := ev
+    by_cases h : e' = "solution_estimate" <;> simp [h, frameRows]
+  · simp [h4, frameEntries]
+
+/-- **the reference-frame step, site by site**: the rows stay where they are; the `solution_estimate` rows of sites
+with a four-character key get `ref_frame`, nothing else changes -/
+theorem entryRows_addRefFrame (e : String) (frame : Option Str) (T : SiteTable) (k : String) :
+    entryRows e (addRefFrame frame T) k =
+      match frame with
+      | some fr =>
+        if k.length = 4 ∧ e = "solution_estimate" then (entryRows e T k).map fun r => dset r "ref_frame" (Cell.str fr)
+        else entryRows e T k
+      | Option.none => entryRows e T k := by
+  cases frame with
+  | none => rfl
+  | some fr =>
+    unfold entryRows
+    rw [addRefFrame_eq, dget_map_val (frameEntries fr) T k]
+    cases hk : dget? T k with
+    | none => simp
+    | some entries =>
+      simp only [Option.map_some, Option.bind_some]
+      by_cases h4 : k.length = 4
+      · simp only [h4, true_and, frameEntries, if_true]
+        rw [dget_map_val (frameRows fr) entries e]
+        cases dget? entries e with
+        | none => simp
+        | some rows => by_cases h : e = "solution_estimate" <;> simp [h, frameRows]
+      · simp [h4, frameEntries]
+
+/-- a block that is not FILE/COMMENT leaves the reference frame alone -/
+theorem siteStep_frame_other (look : String → Option RawBlock) (st st1 : SiteTable × Option Str) (b : BlockDef)
+    (hb : OtherEntry "file_comment" b) (h : siteStep look st b = some st1) : st1.2 = st.2 := by
+  unfold siteStep at h
+  cases hlook : look b.marker with
+  | none => simp only [hlook, Option.some.injEq] at h; subst h; rfl
+  | some r =>
+    cases hk : b.kind with
+    | dflt => simp [hlook, hk] at h
+    | matrix _ => simp [hlook, hk] at h
+    | custom q =>
+      have hq : ¬ entryName q = "file_comment" := hb q hk
+      simp only [hlook, hk, hq, if_false] at h
+      by_cases h2 : entryName q = "site_id"
+      · simp only [h2, if_true, Option.some.injEq] at h; subst h; rfl
+      · simp only [h2, if_false] at h
+        by_cases ha : entryName q = "site_antenna"
+        · simp only [ha, if_true] at h
+          cases hm : (rowsOf b 81 r).mapM antennaRow with
+          | none => simp [hm] at h
+          | some rows' => simp only [hm, Option.map_some, Option.some.injEq] at h; subst h; rfl
+        · simp only [ha, if_false, Option.some.injEq] at h; subst h; rfl
+
+theorem site_fold_frame_other (look : String → Option RawBlock) :
+    ∀ (bs : List BlockDef) (st st' : SiteTable × Option Str), (∀ b ∈ bs, OtherEntry "file_comment" b) →
+      bs.foldlM (siteStep look) st = some st' → st'.2 = st.2 := by
+  intro bs
+  induction bs with
+  | nil =>
+    intro st st' _ h
+    simp only [List.foldlM_nil, Option.pure_def, Option.some.injEq] at h
+    subst h; rfl
+  | cons b rest ih =>
+    intro st st' hall h
+    simp only [List.foldlM_cons, Option.bind_eq_bind] at h
+    cases hstep : siteStep look st b with
+    | none => simp [hstep] at h
+    | some st1 =>
+      rw [hstep, Option.bind_some] at h
+      rw [ih st1 st' (fun b' hb' => hall b' (by simp [hb'])) h]
+      exact siteStep_frame_other look st st1 b (hall b (by simp)) hstep
+
+/-- **the reference frame**: with one FILE/COMMENT block declared, the frame the parser keeps is `parse_file_comment`
+of that block's rows -/
+theorem site_fold_frame (look : String → Option RawBlock) (pre post : List BlockDef) (b : BlockDef) (q : String)
+    (hk : b.kind = .custom q) (hq : entryName q = "file_comment")
+    (hpost : ∀ b' ∈ post, OtherEntry "file_comment" b')
+    (r : RawBlock) (hr : look b.marker = some r) (st0 st : SiteTable × Option Str)
+    (h : (pre ++ b :: post).foldlM (siteStep look) st0 = some st) :
+    refFrame (rowsOf b 81 r) = some st.2 := by
+  rw [List.foldlM_append] at h
+  cases h1 : pre.foldlM (siteStep look) st0 with
+  | none => simp [h1] at h
+  | some st1 =>
+    simp only [h1, Option.bind_eq_bind, Option.bind_some, List.foldlM_cons] at h
+    cases h2 : siteStep look st1 b with
+    | none => simp [h2] at h
+    | some st2 =>
+      rw [h2, Option.bind_some] at h
+      rw [site_fold_frame_other look post st2 st hpost h]
+      unfold siteStep at h2
+      simp only [hr, hk, hq, if_true] at h2
+      cases hf : refFrame (rowsOf b 81 r) with
+      | none => simp [hf] at h2
+      | some fr =>
+        simp only [hf, Option.map_some, Option.some.injEq] at h2
+        subst h2; rfl
+
+/-- one comment row of `parse_file_comment` -/
+def refStep (acc : Option Str) (r : Row) : Option (Option Str) :=
+  if startsWith "LOCAL_GEODETIC_DATUM".toList (cellStr ((r.headD ("", .none)).2)) then
+    match splitOn ':' (cellStr ((r.headD ("", .none)).2)) with
+    | _ :: p :: _ => some (some (strip p))
+    | _ => Option.none
+  else some acc
+
+theorem refFrame_eq (rows : List Row) : refFrame rows = rows.foldlM refStep Option.none := rfl
+
+theorem refStep_skip : ∀ (rows : List Row) (acc : Option Str),
+    (∀ r ∈ rows, startsWith "LOCAL_GEODETIC_DATUM".toList (cellStr ((r.headD ("", .none)).2)) = false) →
+    rows.foldlM refStep acc = some acc := by
+  intro rows
+  induction rows with
+  | nil => intro acc _; rfl
+  | cons x rest ih =>
+    intro acc hx
+    rw [List.foldlM_cons]
+    have : refStep acc x = some acc := by
+      unfold refStep
+      rw [hx x (by simp)]
+      rfl
+    rw [this]
+    exact ih acc (fun r hr => hx r (by simp [hr]))
+
+/-- `parse_file_comment`: a comment `LOCAL_GEODETIC_DATUM:<frame>` gives the stripped frame (other comments are
+ignored) -/
+theorem refFrame_value (pre post : List Row) (row : Row) (p : Str)
+    (hpre : ∀ r ∈ pre, startsWith "LOCAL_GEODETIC_DATUM".toList (cellStr ((r.headD ("", .none)).2)) = false)
+    (hpost : ∀ r ∈ post, startsWith "LOCAL_GEODETIC_DATUM".toList (cellStr ((r.headD ("", .none)).2)) = false)
+    (hrow : cellStr ((row.headD ("", .none)).2) = "LOCAL_GEODETIC_DATUM".toList ++ ':' :: p) (hp : ∀ c ∈ p, c ≠ ':') :
+    refFrame (pre ++ row :: post) = some (some (strip p)) := by
+  rw [refFrame_eq, List.foldlM_append, refStep_skip pre _ hpre]
+  have hsw : startsWith "LOCAL_GEODETIC_DATUM".toList ("LOCAL_GEODETIC_DATUM".toList ++ ':' :: p) = true := by
+    simp [startsWith]
+  have hsplit : splitOn ':' ("LOCAL_GEODETIC_DATUM".toList ++ ':' :: p) = ["LOCAL_GEODETIC_DATUM".toList, p] := by
+    unfold splitOn
+    rw [splitOnAux_line ':' _ (by decide), splitOnAux_nosep ':' p hp]
+    rfl
+  have hstep : refStep Option.none row = some (some (strip p)) := by
+    simp only [refStep, hrow, hsw, if_true, hsplit]
+  simp only [Option.bind_eq_bind, Option.bind_some, List.foldlM_cons, hstep]
+  exact refStep_skip post _ hpost
+
+
+/-! ### SITE/ID: one record per site code — the finding `site:site_id:row-count` and its exact complement -/
+
+/-- site `k` already has an entry `e` -/
+def hasE (e : String) (T : SiteTable) (k : String) : Bool := ((dget? T k).bind fun s => dget? s e).isSome
+
+/-- every stored entry `e` holds exactly one row -/
+def SingleInv (e : String) (T : SiteTable) : Prop := ∀ kv ∈ T, ∀ rows, dget? kv.2 e = some rows → rows.length = 1
+
+theorem length_allRows_addRow_true (e : String) (key : String) (r : Row) : ∀ T : SiteTable, SingleInv e T →
+    (allRows e (addRow true e T key r)).length = (allRows e T).length + (if hasE e T key then 0 else 1) := by
+  intro T
+  induction T with
+  | nil => intro _; simp [addRow, dset, dget?, allRows, hasE]
+  | cons p rest ih =>
+    intro hinv
+    obtain ⟨k', s'⟩ := p
+    by_cases hk : k' = key
+    · subst hk
+      simp only [addRow, dget?, if_true, Option.getD_some, dset, allRows, List.flatMap_cons, dget_dset_self,
+        List.length_append, hasE, Option.bind_some]
+      cases hs : dget? s' e with
+      | none => simp <;> omega
+      | some rows =>
+        have := hinv (k', s') (by simp) rows hs
+        simp [this] <;> omega
+    · have hrest : SingleInv e rest := fun kv hkv => hinv kv (by simp [hkv])
+      have := ih hrest
+      simp only [addRow, if_true] at this
+      simp only [addRow, dget?, hk, if_false, dset, allRows, List.flatMap_cons, List.length_append, hasE, if_true]
+      simp only [allRows, hasE] at this
+      rw [this]
+      exact (Nat.add_assoc _ _ _).symm
+
+theorem singleInv_addRow_true (e : String) (key : String) (r : Row) : ∀ T : SiteTable, SingleInv e T →
+    SingleInv e (addRow true e T key r) := by
+  intro T
+  induction T with
+  | nil =>
+    intro _ kv hkv rows hrows
+    simp only [addRow, dget?, Option.getD_none, dset, if_true, List.mem_cons, List.not_mem_nil, or_false] at hkv
+    subst hkv
+    simp only [dget?, if_true, Option.some.injEq] at hrows
+    subst hrows; rfl
+  | cons p rest ih =>
+    intro hinv
+    obtain ⟨k', s'⟩ := p
+    have hrest : SingleInv e rest := fun kv hkv => hinv kv (by simp [hkv])
+    by_cases hk : k' = key
+    · subst hk
+      intro kv hkv rows hrows
+      simp only [addRow, dget?, if_true, Option.getD_some, dset, List.mem_cons] at hkv
+      rcases hkv with rfl | hkv
+      · simp only [dget_dset_self, Option.some.injEq] at hrows
+        subst hrows; rfl
+      · exact hrest kv hkv rows hrows
+    · intro kv hkv rows hrows
+      simp only [addRow, dget?, hk, if_false, dset, if_true, List.mem_cons] at hkv
+      rcases hkv with rfl | hkv
+      · exact hinv (k', s') (by simp) rows hrows
+      · have := ih hrest
+        simp only [addRow, if_true] at this
+        exact this kv hkv rows hrows
+
+theorem hasE_addRow_true (e : String) (T : SiteTable) (key : String) (r : Row) (k' : String) :
+    hasE e (addRow true e T key r) k' = (hasE e T k' || decide (k' = key)) := by
+  unfold hasE addRow
+  by_cases hk : k' = key
+  · subst hk
+    simp [dget_dset_self]
+  · rw [dget_dset_ne _ _ _ _ (Ne.symm hk)]
+    simp [hk]
+
+/-- in `data[site][entry] = row` mode, `rows.length` more rows are stored exactly when the keys of the rows are pairwise
+different and none of them was there before; otherwise fewer -/
+theorem count_regroup_true (e : String) (keyOf : Row → String) (f : Row → Row) (rows : List Row) :
+    ∀ T : SiteTable, SingleInv e T →
+      (allRows e (regroup true e keyOf f T rows)).length ≤ (allRows e T).length + rows.length ∧
+      ((allRows e (regroup true e keyOf f T rows)).length = (allRows e T).length + rows.length ↔
+        ((rows.map keyOf).Nodup ∧ ∀ r ∈ rows, hasE e T (keyOf r) = false)) := by
+  induction rows with
+  | nil => intro T _; simp [regroup]
+  | cons r rows ih =>
+    intro T hinv
+    simp only [regroup, List.foldl_cons] at ih ⊢
+    obtain ⟨hle, hiff⟩ := ih (addRow true e T (keyOf r) (f r)) (singleInv_addRow_true e _ _ T hinv)
+    have hA := length_allRows_addRow_true e (keyOf r) (f r) T hinv
+    constructor
+    · rw [hA] at hle
+      simp only [List.length_cons]
+      split at hle <;> omega
+    · simp only [List.length_cons, List.map_cons, List.nodup_cons, List.mem_cons, forall_eq_or_imp]
+      by_cases hh : hasE e T (keyOf r) = true
+      · -- the key is there already: a row is replaced
+        rw [hA] at hle
+        simp only [hh, if_true] at hle
+        constructor
+        · intro heq; omega
+        · intro ⟨_, hfalse, _⟩; rw [hh] at hfalse; cases hfalse
+      · have hh' : hasE e T (keyOf r) = false := by simpa using hh
+        rw [hA] at hiff
+        simp only [hh', Bool.false_eq_true, if_false] at hiff
+        have hiff' : (allRows e (List.foldl (fun T r => addRow true e T (keyOf r) (f r)) (addRow true e T (keyOf r) (f r)) rows)).length =
+            (allRows e T).length + (rows.length + 1) ↔
+            ((rows.map keyOf).Nodup ∧ ∀ r' ∈ rows, hasE e (addRow true e T (keyOf r) (f r)) (keyOf r') = false) := by
+          rw [← hiff]; constructor <;> (intro h; omega)
+        rw [hiff']
+        simp only [hasE_addRow_true, Bool.or_eq_false_iff, decide_eq_false_iff_not, hh', true_and]
+        constructor
+        · intro ⟨hnd, hall⟩
+          refine ⟨⟨fun hm => ?_, hnd⟩, fun r' hr' => (hall r' hr').1⟩
+          simp only [List.mem_map] at hm
+          obtain ⟨r', hr', heq⟩ := hm
+          exact (hall r' hr').2 heq
+        · intro ⟨⟨hnot, hnd⟩, hall⟩
+          exact ⟨hnd, fun r' hr' => ⟨hall r' hr', fun heq => hnot (List.mem_map.mpr ⟨r', hr', heq⟩)⟩⟩
+
+/-- **SITE/ID row count**: `sinex_site` returns as many SITE/ID records as were written **if and only if** the
+(lower-cased) site codes of the records are pairwise different; otherwise it returns fewer — the known finding
+`site:site_id:row-count` is exactly the complement of the hypothesis of `site_file_site_id` -/
+theorem site_id_count (rows : List Row) :
+    (allRows "site_id" (regroup true "site_id" siteKey id [] rows)).length ≤ rows.length ∧
+    ((allRows "site_id" (regroup true "site_id" siteKey id [] rows)).length = rows.length ↔ (rows.map siteKey).Nodup) := by
+  have hinv : SingleInv "site_id" [] := fun kv hkv => by simp at hkv
+  obtain ⟨h1, h2⟩ := count_regroup_true "site_id" siteKey id rows [] hinv
+  simp only [allRows, List.flatMap_nil, List.length_nil, Nat.zero_add] at h1 h2
+  refine ⟨h1, ?_⟩
+  simp only [allRows]
+  rw [h2]
+  simp [hasE, dget?]
+
+
+/-! ### sinex_site from the file text -/
+
+/-- `SinexSiteParser.parse()` on the text of a file -/
+theorem parseSite_file (header : List FieldDef) (blocks : List BlockDef) (F : SnxFile) (hwf : F.wf) (R : Result)
+    (hR : parseSiteFile header blocks F.text = some R) :
+    R.hdr = headerRow snxTag header (fun _ => 81) F.header ∧
+    ∃ st, blocks.foldlM (siteStep (rawOf (expected (blocks.map (·.marker)) F.segs))) ([], Option.none) = some st ∧
+      R.data = siteTableVal (addRefFrame st.2 st.1) := by
+  unfold parseSiteFile parseWith at hR
+  rw [readRaw_file _ _ _ _ _ hwf] at hR
+  simp only [Option.bind_some, assembleSite] at hR
+  cases hst : blocks.foldlM (siteStep (rawOf (expected (blocks.map (·.marker)) F.segs))) ([], Option.none) with
+  | none => rw [hst] at hR; simp at hR
+  | some st =>
+    rw [hst] at hR
+    simp only [Option.map_some, Option.some.injEq] at hR
+    subst hR
+    exact ⟨rfl, st, rfl, rfl⟩
+
+theorem contrib_other (e : String) (look : String → Option RawBlock) (b : BlockDef) (hb : OtherEntry e b) :
+    contrib e look b = [] := by
+  unfold contrib
+  cases look b.marker with
+  | none => rfl
+  | some r =>
+    cases hk : b.kind with
+    | dflt => rfl
+    | matrix _ => rfl
+    | custom q => simp [hb q hk]
+
+theorem flatMap_contrib_single (e : String) (look : String → Option RawBlock) (pre post : List BlockDef) (b : BlockDef)
+    (hpre : ∀ b' ∈ pre, OtherEntry e b') (hpost : ∀ b' ∈ post, OtherEntry e b') :
+    (pre ++ b :: post).flatMap (contrib e look) = contrib e look b := by
+  have h1 : pre.flatMap (contrib e look) = [] := by
+    rw [List.flatMap_eq_nil_iff]; exact fun b' hb' => contrib_other e look b' (hpre b' hb')
+  have h2 : post.flatMap (contrib e look) = [] := by
+    rw [List.flatMap_eq_nil_iff]; exact fun b' hb' => contrib_other e look b' (hpost b' hb')
+  simp [List.flatMap_append, h1, h2]
+
+/-- what the first block of `b`'s marker in a file contributes: its written records, converted -/
+theorem contrib_file (e : String) (b : BlockDef) (q : String) (hk : b.kind = .custom q) (hq : entryName q = e)
+    (hna : e ≠ "site_antenna") (hs : Sorted (layoutOf b.fields 81) = true) (hl : leadOk (layoutOf b.fields 81) = true)
+    (segs : List Seg) (ps : List Str) (items : List Item) (hitems : ∀ i ∈ items, i.wf b.fields 81)
+    (hfb : FirstBlock segs b.marker ps (content b.fields 81 items)) (w : List String) (hw : b.marker ∈ w) :
+    contrib e (rawOf (expected w segs)) b = (records items).map (convertRow b.fields) := by
+  obtain ⟨pre, post, h, mk, f, rfl, hmk, hfirst⟩ := hfb
+  obtain ⟨r, hr, _, hrows⟩ := file_block_rows b w hw 81 hs hl pre post h mk ps f items hmk hfirst hitems
+  unfold contrib
+  simp only [hr, hk, hq, if_true, hna, if_false, rowsOf, hrows]
+
+theorem filter_key_nodup (key : Row → String) (rows : List Row) (h : (rows.map key).Nodup) (r : Row) (hr : r ∈ rows) :
+    (rows.filter fun r' => key r' = key r) = [r] := by
+  induction rows with
+  | nil => simp at hr
+  | cons x rest ih =>
+    simp only [List.map_cons, List.nodup_cons] at h
+    rcases List.mem_cons.mp hr with rfl | hin
+    · have : rest.filter (fun r' => decide (key r' = key r)) = [] := by
+        rw [List.filter_eq_nil_iff]
+        intro r' hr' heq
+        simp only [decide_eq_true_eq] at heq
+        exact h.1 (by rw [← heq]; exact List.mem_map_of_mem hr')
+      simp [List.filter_cons, this]
+    · have hx : ¬ key x = key r := fun heq => h.1 (by rw [heq]; exact List.mem_map_of_mem hin)
+      simp only [List.filter_cons, hx, decide_false, Bool.false_eq_true, if_false]
+      exact ih h.2 hin
+
+/-- **SITE/ID at file level**: `sinex_site` (the SITE/ID block the only one stored under `site_id`) reads a file holding a
+SITE/ID block (first of its marker, anywhere) whose records have pairwise different (lower-cased) site codes.  Then
+in the returned table every written record sits, converted, under `data[site_code.lower()]["site_id"]`. -/
+theorem site_file_site_id (pre post : List BlockDef) (b : BlockDef) (q : String)
+    (hk : b.kind = .custom q) (hq : entryName q = "site_id")
+    (hpre : ∀ b' ∈ pre, OtherEntry "site_id" b') (hpost : ∀ b' ∈ post, OtherEntry "site_id" b')
+    (hs : Sorted (layoutOf b.fields 81) = true) (hl : leadOk (layoutOf b.fields 81) = true)
+    (segs : List Seg) (ps : List Str) (items : List Item) (hitems : ∀ i ∈ items, i.wf b.fields 81)
+    (hfb : FirstBlock segs b.marker ps (content b.fields 81 items))
+    (hnd : (((records items).map (convertRow b.fields)).map siteKey).Nodup)
+    (st : SiteTable × Option Str)
+    (hfold : (pre ++ b :: post).foldlM (siteStep (rawOf (expected ((pre ++ b :: post).map (·.marker)) segs)))
+      ([], Option.none) = some st) :
+    ∀ r ∈ (records items).map (convertRow b.fields),
+      entryRows "site_id" (addRefFrame st.2 st.1) (siteKey r) = [r] := by
+  intro r hr
+  have hframe : entryRows "site_id" (addRefFrame st.2 st.1) (siteKey r) = entryRows "site_id" st.1 (siteKey r) := by
+    rw [entryRows_addRefFrame]
+    have : ¬ "site_id" = "solution_estimate" := by decide
+    cases st.2 <;> simp [this]
+  rw [hframe, site_fold_entry _ "site_id" (by decide) (siteKey r) _ _ st hfold]
+  simp only [if_true]
+  rw [flatMap_contrib_single "site_id" _ pre post b hpre hpost,
+    contrib_file "site_id" b q hk hq (by decide) hs hl segs ps items hitems hfb _ (by simp),
+    filter_key_nodup siteKey _ hnd r hr]
+  rfl
+
+/-- **every other site block at file level, site by site, with the reference frame**: under entry `e` (receiver,
+eccentricity, solution epochs, solution estimate …; its block the only one of that entry) site `k` holds exactly the
+written records whose site code is `k`, in file order; the `solution_estimate` rows of four-character sites carry
+`ref_frame` when the parser kept a frame -/
+theorem site_file_entry (e : String) (he1 : e ≠ "site_id") (he2 : e ≠ "file_comment") (hna : e ≠ "site_antenna")
+    (pre post : List BlockDef) (b : BlockDef) (q : String) (hk : b.kind = .custom q) (hq : entryName q = e)
+    (hpre : ∀ b' ∈ pre, OtherEntry e b') (hpost : ∀ b' ∈ post, OtherEntry e b')
+    (hs : Sorted (layoutOf b.fields 81) = true) (hl : leadOk (layoutOf b.fields 81) = true)
+    (segs : List Seg) (ps : List Str) (items : List Item) (hitems : ∀ i ∈ items, i.wf b.fields 81)
+    (hfb : FirstBlock segs b.marker ps (content b.fields 81 items))
+    (st : SiteTable × Option Str)
+    (hfold : (pre ++ b :: post).foldlM (siteStep (rawOf (expected ((pre ++ b :: post).map (·.marker)) segs)))
+      ([], Option.none) = some st) (k : String) :
+    entryRows e (addRefFrame st.2 st.1) k =
+      match st.2 with
+      | some fr =>
+        if k.length = 4 ∧ e = "solution_estimate" then
+          (((records items).map (convertRow b.fields)).filter fun r => siteKey r = k).map fun r =>
+            dset r "ref_frame" (Cell.str fr)
+        else ((records items).map (convertRow b.fields)).filter fun r => siteKey r = k
+      | Option.none => ((records items).map (convertRow b.fields)).filter fun r => siteKey r = k := by
+  have hrows : entryRows e st.1 k = ((records items).map (convertRow b.fields)).filter fun r => siteKey r = k := by
+    rw [site_fold_entry _ e he2 k _ _ st hfold]
+    simp only [he1, if_false]
+    rw [flatMap_contrib_single e _ pre post b hpre hpost,
+      contrib_file e b q hk hq hna hs hl segs ps items hitems hfb _ (by simp)]
+    simp [entryRows, dget?]
+  rw [entryRows_addRefFrame, hrows]
+
+/-- **the frame at file level**: with a FILE/COMMENT block declared and present, the frame `sinex_site` keeps is
+`parse_file_comment` of that block's written records (`refFrame_value`: the text after `LOCAL_GEODETIC_DATUM:`) -/
+theorem site_file_frame (pre post : List BlockDef) (b : BlockDef) (q : String)
+    (hk : b.kind = .custom q) (hq : entryName q = "file_comment") (hpost : ∀ b' ∈ post, OtherEntry "file_comment" b')
+    (hs : Sorted (layoutOf b.fields 81) = true) (hl : leadOk (layoutOf b.fields 81) = true)
+    (segs : List Seg) (ps : List Str) (items : List Item) (hitems : ∀ i ∈ items, i.wf b.fields 81)
+    (hfb : FirstBlock segs b.marker ps (content b.fields 81 items))
+    (st : SiteTable × Option Str)
+    (hfold : (pre ++ b :: post).foldlM (siteStep (rawOf (expected ((pre ++ b :: post).map (·.marker)) segs)))
+      ([], Option.none) = some st) :
+    refFrame ((records items).map (convertRow b.fields)) = some st.2 := by
+  obtain ⟨pre', post', h, mk, f, rfl, hmk, hfirst⟩ := hfb
+  obtain ⟨r, hr, _, hrows⟩ := file_block_rows b ((pre ++ b :: post).map (·.marker)) (by simp) 81 hs hl pre' post' h mk ps f
+    items hmk hfirst hitems
+  have := site_fold_frame _ pre post b q hk hq hpost r hr _ st hfold
+  simpa [rowsOf, hrows] using this
+
+
+/-- the declared blocks of `SinexSiteParser` satisfy the table hypotheses of `site_file_site_id` -/
+example : ∃ pre post b q, siteBlocks = pre ++ b :: post ∧ b.kind = .custom q ∧ entryName q = "site_id" ∧
+    (∀ b' ∈ pre ++ post, OtherEntry "site_id" b') ∧ Sorted (layoutOf b.fields 81) = true ∧ leadOk (layoutOf b.fields 81) = true := by
+  refine ⟨siteBlocks.take 1, siteBlocks.drop 2, siteBlocks[1], "SinexSiteParser.parse_site_id", by decide +kernel, by decide +kernel,
+    by decide +kernel, ?_, by decide +kernel, by decide +kernel⟩
+  intro b' hb'
+  simp only [siteBlocks, List.take, List.drop, List.cons_append, List.nil_append, List.mem_cons, List.not_mem_nil, or_false] at hb'
+  rcases hb' with rfl | rfl | rfl | rfl | rfl | rfl <;>
+    (intro q hq; simp only [ParserKind.custom.injEq] at hq; subst hq; decide +kernel)
+
+/-- two SITE/ID records with the same site code: one comes back (the finding), with different codes both do -/
+example : (allRows "site_id" (regroup true "site_id" siteKey id []
+      [[("site_code", .str "ZIMM".toList), ("point_code", .str "A".toList)],
+       [("site_code", .str "zimm".toList), ("point_code", .str "B".toList)]])).length = 1 ∧
+    (allRows "site_id" (regroup true "site_id" siteKey id []
+      [[("site_code", .str "ZIMM".toList), ("point_code", .str "A".toList)],
+       [("site_code", .str "ZIM2".toList), ("point_code", .str "B".toList)]])).length = 2 := by decide +kernel
+
+/-! ## 16. sinex_tro: what `SinexTropParser` stores under each key -/
+
+def keywordOf (row : Row) : String := asString (cellStr (lookup row "keyword"))
+def stationOf (row : Row) : String := asString (cellStr (lookup row "site_name"))
+def restOf (row : Row) : Row := row.filter (·.1 ≠ "site_name")
+
+/-- the keys of `self.data` a block of `SinexTropParser` writes: its marker (default parser), the keywords of its
+rows (TROP/DESCRIPTION), the station names of its rows (TROP/SOLUTION) -/
+def troKeys (look : String → Option RawBlock) (b : BlockDef) : List String :=
+  match look b.marker with
+  | Option.none => []
+  | some r =>
+    match b.kind with
+    | .dflt => [b.marker]
+    | .matrix _ => []
+    | .custom q =>
+      if entryName q = "trop_description" then (rowsOf b 81 r).map keywordOf
+      else if entryName q = "trop_solution" then (rowsOf b 81 r).map stationOf
+      else []
+
+theorem foldl_desc_other (k : String) (rows : List Row) : ∀ D : List (String × Val), k ∉ rows.map keywordOf →
+    dget? (rows.foldl troDescStep D) k = dget? D k := by
+  induction rows with
+  | nil => intro D _; rfl
+  | cons r rest ih =>
+    intro D hk
+    simp only [List.map_cons, List.mem_cons, not_or] at hk
+    simp only [List.foldl_cons]
+    rw [ih _ hk.2]
+    exact dget_dset_ne _ _ _ _ (fun e => hk.1 e.symm)
+
+theorem foldl_sol_other (k : String) (rows : List Row) : ∀ D : List (String × Val), k ∉ rows.map stationOf →
+    dget? (rows.foldl troSolStep D) k = dget? D k := by
+  induction rows with
+  | nil => intro D _; rfl
+  | cons r rest ih =>
+    intro D hk
+    simp only [List.map_cons, List.mem_cons, not_or] at hk
+    simp only [List.foldl_cons]
+    rw [ih _ hk.2]
+    exact dget_dset_ne _ _ _ _ (fun e => hk.1 e.symm)
+
+/-- a block touches only the keys it writes -/
+theorem troStep_other (look : String → Option RawBlock) (k : String) (D D' : List (String × Val)) (b : BlockDef)
+    (hk : k ∉ troKeys look b) (h : troStep look D b = some D') : dget? D' k = dget? D k := by
+  unfold troStep at h
+  unfold troKeys at hk
+  cases hlook : look b.marker with
+  | none => simp only [hlook, Option.some.injEq] at h; subst h; rfl
+  | some r =>
+    simp only [hlook] at h hk
+    cases hkind : b.kind with
+    | dflt =>
+      simp only [hkind, Option.some.injEq] at h
+      simp only [hkind, List.mem_cons, List.not_mem_nil, or_false] at hk
+      subst h
+      exact dget_dset_ne _ _ _ _ (fun e => hk e.symm)
+    | matrix _ => simp [hkind] at h
+    | custom q =>
+      simp only [hkind] at h hk
+      by_cases h1 : entryName q = "trop_description"
+      · simp only [h1, if_true, Option.some.injEq] at h hk
+        subst h
+        exact foldl_desc_other k _ D hk
+      · simp only [h1, if_false] at h hk
+        by_cases h2 : entryName q = "trop_solution"
+        · simp only [h2, if_true, Option.some.injEq] at h hk
+          subst h
+          exact foldl_sol_other k _ D hk
+        · simp [h2] at h
+
+theorem tro_fold_other (look : String → Option RawBlock) (k : String) :
+    ∀ (bs : List BlockDef) (D D' : List (String × Val)), (∀ b ∈ bs, k ∉ troKeys look b) →
+      bs.foldlM (troStep look) D = some D' → dget? D' k = dget? D k := by
+  intro bs
+  induction bs with
+  | nil =>
+    intro D D' _ h
+    simp only [List.foldlM_nil, Option.pure_def, Option.some.injEq] at h
+    subst h; rfl
+  | cons b rest ih =>
+    intro D D' hall h
+    simp only [List.foldlM_cons, Option.bind_eq_bind] at h
+    cases hstep : troStep look D b with
+    | none => simp [hstep] at h
+    | some D1 =>
+      rw [hstep, Option.bind_some] at h
+      rw [ih D1 D' (fun b' hb' => hall b' (by simp [hb'])) h]
+      exact troStep_other look k D D1 b (hall b (by simp)) hstep
+
+theorem tro_fold_block (look : String → Option RawBlock) (k : String) (pre post : List BlockDef) (b : BlockDef)
+    (hpre : ∀ b' ∈ pre, k ∉ troKeys look b') (hpost : ∀ b' ∈ post, k ∉ troKeys look b') (D : List (String × Val))
+    (h : assembleTro (pre ++ b :: post) look = some D) :
+    ∃ D1 D2, troStep look D1 b = some D2 ∧ dget? D1 k = Option.none ∧ dget? D k = dget? D2 k := by
+  unfold assembleTro at h
+  rw [List.foldlM_append] at h
+  cases h1 : pre.foldlM (troStep look) [] with
+  | none => simp [h1] at h
+  | some D1 =>
+    simp only [h1, Option.bind_eq_bind, Option.bind_some, List.foldlM_cons] at h
+    cases h2 : troStep look D1 b with
+    | none => simp [h2] at h
+    | some D2 =>
+      rw [h2, Option.bind_some] at h
+      exact ⟨D1, D2, h2, by rw [tro_fold_other look k pre [] D1 hpre h1]; rfl, tro_fold_other look k post D2 D hpost h⟩
+
+/-- **default blocks of sinex_tro** (FILE/REFERENCE, TROP/STA_COORDINATES …): `data[MARKER]` is the column dictionary
+of the block's rows, provided no keyword of TROP/DESCRIPTION and no station of TROP/SOLUTION is spelled like the
+marker (they share `self.data`) -/
+theorem tro_default_block (look : String → Option RawBlock) (pre post : List BlockDef) (b : BlockDef) (hk : b.kind = .dflt)
+    (hpre : ∀ b' ∈ pre, b.marker ∉ troKeys look b') (hpost : ∀ b' ∈ post, b.marker ∉ troKeys look b')
+    (r : RawBlock) (hr : look b.marker = some r) (D : List (String × Val))
+    (h : assembleTro (pre ++ b :: post) look = some D) :
+    dget? D b.marker = some (.dict (columns b.fields (rowsOf b 81 r))) := by
+  obtain ⟨D1, D2, h2, _, h4⟩ := tro_fold_block look b.marker pre post b hpre hpost D h
+  unfold troStep at h2
+  simp only [hr, hk, Option.some.injEq] at h2
+  rw [h4, ← h2, dget_dset_self]
+
+/-- TROP/DESCRIPTION rows written one after the other: the last row of a keyword gives its value -/
+theorem foldl_desc_get (k : String) (rows : List Row) : ∀ D : List (String × Val),
+    dget? (rows.foldl troDescStep D) k =
+      match (rows.filter fun r => keywordOf r = k).getLast? with
+      | some row => some (.cell (lookup row "value"))
+      | Option.none => dget? D k := by
+  induction rows with
+  | nil => intro D; rfl
+  | cons r rest ih =>
+    intro D
+    simp only [List.foldl_cons]
+    rw [ih]
+    by_cases hk : keywordOf r = k
+    · subst hk
+      simp only [List.filter_cons, decide_true, if_true, List.getLast?_cons]
+      cases (rest.filter fun r' => decide (keywordOf r' = keywordOf r)).getLast? with
+      | none => simp only [Option.getD_none]; exact dget_dset_self _ _ _
+      | some x => simp
+    · simp only [List.filter_cons, hk, decide_false, Bool.false_eq_true, if_false]
+      cases (rest.filter fun r' => decide (keywordOf r' = k)).getLast? with
+      | none => exact dget_dset_ne _ _ _ _ hk
+      | some x => rfl
+
+/-- **TROP/DESCRIPTION**: `data[keyword]` is the value of the (last) row with that keyword -/
+theorem tro_description (look : String → Option RawBlock) (pre post : List BlockDef) (b : BlockDef) (q : String)
+    (hk : b.kind = .custom q) (hq : entryName q = "trop_description") (k : String)
+    (hpre : ∀ b' ∈ pre, k ∉ troKeys look b') (hpost : ∀ b' ∈ post, k ∉ troKeys look b')
+    (r : RawBlock) (hr : look b.marker = some r) (D : List (String × Val))
+    (h : assembleTro (pre ++ b :: post) look = some D) (row : Row)
+    (hrow : ((rowsOf b 81 r).filter fun r' => keywordOf r' = k).getLast? = some row) :
+    dget? D k = some (.cell (lookup row "value")) := by
+  obtain ⟨D1, D2, h2, _, h4⟩ := tro_fold_block look k pre post b hpre hpost D h
+  unfold troStep at h2
+  simp only [hr, hk, hq, if_true, Option.some.injEq] at h2
+  rw [h4, ← h2, foldl_desc_get, hrow]
+
+
+/-! ### TROP/SOLUTION: one dictionary per station, updated row by row -/
+
+theorem updateRow_eq (old new : Row) : updateRow old new = new.foldl (fun d kv => dset d kv.1 kv.2) old := rfl
+
+theorem filterMap_cells (r : Row) :
+    (r.map fun (k, c) => (k, Val.cell c)).filterMap (fun (k, v) => match v with | .cell c => some (k, c) | _ => Option.none) = r := by
+  induction r with
+  | nil => rfl
+  | cons p rest ih =>
+    obtain ⟨a, c⟩ := p
+    simp only [List.map_cons, List.filterMap_cons]
+    rw [ih]
+
+theorem cellsOf_rowVal (D : List (String × Val)) (k : String) (r : Row) (h : dget? D k = some (rowVal r)) :
+    cellsOf D k = r := by
+  unfold cellsOf
+  rw [h]
+  exact filterMap_cells r
+
+theorem cellsOf_none (D : List (String × Val)) (k : String) (h : dget? D k = Option.none) : cellsOf D k = [] := by
+  unfold cellsOf; rw [h]
+
+theorem dset_mid {α} (A B : List (String × α)) (k : String) (o v : α) (h : k ∉ keys A) :
+    dset (A ++ (k, o) :: B) k v = A ++ (k, v) :: B := by
+  induction A with
+  | nil => simp [dset]
+  | cons p rest ih =>
+    obtain ⟨k', v'⟩ := p
+    simp only [keys, List.map_cons, List.mem_cons, not_or] at h
+    have : ¬ k' = k := fun e => h.1 e.symm
+    simp only [List.cons_append, dset, this, if_false]
+    rw [ih h.2]
+
+/-- `dict.update` with a dictionary of the same keys (in the same order) replaces every value -/
+theorem foldl_dset_same {α} (newS : List (String × α)) : ∀ (A oldS : List (String × α)), keys oldS = keys newS →
+    (keys A ++ keys newS).Nodup → newS.foldl (fun d kv => dset d kv.1 kv.2) (A ++ oldS) = A ++ newS := by
+  induction newS with
+  | nil =>
+    intro A oldS hk _
+    have : oldS = [] := by simpa [keys] using hk
+    simp [this]
+  | cons p ns ih =>
+    intro A oldS hk hnd
+    obtain ⟨k, v⟩ := p
+    cases oldS with
+    | nil => simp [keys] at hk
+    | cons po os =>
+      obtain ⟨k', o⟩ := po
+      simp only [keys, List.map_cons, List.cons.injEq] at hk
+      obtain ⟨rfl, hks⟩ := hk
+      have hkA : k' ∉ keys A := by
+        have := (List.nodup_append.mp hnd).2.2
+        intro hm
+        exact this k' hm k' (by simp [keys]) rfl
+      simp only [List.foldl_cons]
+      rw [dset_mid A os k' o v hkA]
+      have := ih (A ++ [(k', v)]) os hks (by
+        simp only [keys, List.map_append, List.map_cons, List.map_nil, List.append_assoc, List.cons_append, List.nil_append]
+        simpa [keys] using hnd)
+      simpa [List.append_assoc] using this
+
+theorem updateRow_same (old new : Row) (hk : keys old = keys new) (hnd : (keys new).Nodup) : updateRow old new = new := by
+  rw [updateRow_eq]
+  have := foldl_dset_same new [] old hk (by simpa [keys] using hnd)
+  simpa using this
+
+theorem updateRow_nil (new : Row) (hnd : (keys new).Nodup) : updateRow [] new = new := by
+  rw [updateRow_eq]
+  have := foldl_dset_append new [] (by simpa using hnd)
+  simpa using this
+
+/-- the station either has no dictionary yet or one with the keys `ks` -/
+def RowAt (ks : List String) (D : List (String × Val)) (k : String) : Prop :=
+  dget? D k = Option.none ∨ ∃ r, keys r = ks ∧ dget? D k = some (rowVal r)
+
+theorem solStep_get (ks : List String) (hnd : ks.Nodup) (D : List (String × Val)) (row : Row)
+    (hrow : keys (restOf row) = ks) (hat : RowAt ks D (stationOf row)) (k : String) :
+    dget? (troSolStep D row) k = if stationOf row = k then some (rowVal (restOf row)) else dget? D k := by
+  have hupd : updateRow (cellsOf D (stationOf row)) (restOf row) = restOf row := by
+    rcases hat with hn | ⟨r, hkr, hr⟩
+    · rw [cellsOf_none D _ hn]; exact updateRow_nil _ (by rw [hrow]; exact hnd)
+    · rw [cellsOf_rowVal D _ r hr]; exact updateRow_same _ _ (by rw [hkr, hrow]) (by rw [hrow]; exact hnd)
+  have hstep : troSolStep D row = dset D (stationOf row) (rowVal (restOf row)) := by
+    unfold troSolStep
+    simp only
+    rw [show asString (cellStr (lookup row "site_name")) = stationOf row from rfl,
+      show row.filter (·.1 ≠ "site_name") = restOf row from rfl, hupd]
+  rw [hstep]
+  by_cases h : stationOf row = k
+  · subst h; simp [dget_dset_self]
+  · simp only [h, if_false]; exact dget_dset_ne _ _ _ _ h
+
+/-- TROP/SOLUTION rows written one after the other: a station's dictionary is its last row (without `site_name`) -/
+theorem foldl_sol_get (ks : List String) (hnd : ks.Nodup) (k : String) (rows : List Row) :
+    ∀ D : List (String × Val), (∀ row ∈ rows, keys (restOf row) = ks) → (∀ row ∈ rows, RowAt ks D (stationOf row)) →
+      dget? (rows.foldl troSolStep D) k =
+        match (rows.filter fun r => stationOf r = k).getLast? with
+        | some row => some (rowVal (restOf row))
+        | Option.none => dget? D k := by
+  induction rows with
+  | nil => intro D _ _; rfl
+  | cons r rest ih =>
+    intro D hkeys hat
+    simp only [List.foldl_cons]
+    have hr := solStep_get ks hnd D r (hkeys r (by simp)) (hat r (by simp))
+    have hat' : ∀ row ∈ rest, RowAt ks (troSolStep D r) (stationOf row) := by
+      intro row hrow
+      unfold RowAt
+      rw [hr (stationOf row)]
+      by_cases h : stationOf r = stationOf row
+      · simp only [h, if_true]
+        exact Or.inr ⟨restOf r, hkeys r (by simp), rfl⟩
+      · simp only [h, if_false]
+        exact hat row (by simp [hrow])
+    rw [ih _ (fun row h' => hkeys row (by simp [h'])) hat', hr k]
+    by_cases hk : stationOf r = k
+    · subst hk
+      simp only [List.filter_cons, decide_true, if_true, List.getLast?_cons]
+      cases (rest.filter fun r' => decide (stationOf r' = stationOf r)).getLast? <;> simp
+    · simp only [List.filter_cons, hk, decide_false, Bool.false_eq_true, if_false]
+
+/-- **TROP/SOLUTION**: `data[station]` is the dictionary of the (last) row of that station, without `site_name` — the
+rows of a block all have the fields `ks` of its table; no earlier block wrote a key spelled like one of the
+block's stations -/
+theorem tro_solution (look : String → Option RawBlock) (pre post : List BlockDef) (b : BlockDef) (q : String)
+    (hk : b.kind = .custom q) (hq : entryName q = "trop_solution") (k : String)
+    (r : RawBlock) (hr : look b.marker = some r)
+    (hpre : ∀ b' ∈ pre, ∀ row ∈ rowsOf b 81 r, stationOf row ∉ troKeys look b')
+    (hpost : ∀ b' ∈ post, k ∉ troKeys look b')
+    (ks : List String) (hnd : ks.Nodup) (hkeys : ∀ row ∈ rowsOf b 81 r, keys (restOf row) = ks)
+    (D : List (String × Val)) (h : assembleTro (pre ++ b :: post) look = some D) (row : Row)
+    (hrow : ((rowsOf b 81 r).filter fun r' => stationOf r' = k).getLast? = some row) :
+    dget? D k = some (rowVal (restOf row)) := by
+  unfold assembleTro at h
+  rw [List.foldlM_append] at h
+  cases h1 : pre.foldlM (troStep look) [] with
+  | none => simp [h1] at h
+  | some D1 =>
+    simp only [h1, Option.bind_eq_bind, Option.bind_some, List.foldlM_cons] at h
+    cases h2 : troStep look D1 b with
+    | none => simp [h2] at h
+    | some D2 =>
+      rw [h2, Option.bind_some] at h
+      rw [tro_fold_other look k post D2 D hpost h]
+      unfold troStep at h2
+      have hne : ¬ "trop_solution" = "trop_description" := by decide
+      simp only [hr, hk, hq, hne, if_false, if_true, Option.some.injEq] at h2
+      rw [← h2, foldl_sol_get ks hnd k _ D1 hkeys, hrow]
+      intro row' hrow'
+      left
+      rw [tro_fold_other look _ pre [] D1 (fun b' hb' => hpre b' hb' row' hrow') h1]
+      rfl
+
+
+/-! ### sinex_tro from the file text -/
+
+/-- `SinexTropParser.parse()` on the text of a file -/
+theorem parseTro_file (header : List FieldDef) (blocks : List BlockDef) (F : SnxFile) (hwf : F.wf) (R : Result)
+    (hR : parseTroFile header blocks F.text = some R) :
+    R.hdr = headerRow snxTag header (fun _ => 81) F.header ∧
+    ∃ D, R.data = .dict D ∧ assembleTro blocks (rawOf (expected (blocks.map (·.marker)) F.segs)) = some D := by
+  unfold parseTroFile parseWith at hR
+  rw [readRaw_file _ _ _ _ _ hwf] at hR
+  simp only [Option.bind_some] at hR
+  cases hD : assembleTro blocks (rawOf (expected (blocks.map (·.marker)) F.segs)) with
+  | none => rw [hD] at hR; simp at hR
+  | some D =>
+    rw [hD] at hR
+    simp only [Option.map_some, Option.some.injEq] at hR
+    subst hR
+    exact ⟨rfl, D, rfl, rfl⟩
+
+/-- the rows a file delivers for the first block of `b`'s marker -/
+theorem file_rows (b : BlockDef) (hs : Sorted (layoutOf b.fields 81) = true) (hl : leadOk (layoutOf b.fields 81) = true)
+    (segs : List Seg) (ps : List Str) (items : List Item) (hitems : ∀ i ∈ items, i.wf b.fields 81)
+    (hfb : FirstBlock segs b.marker ps (content b.fields 81 items)) (w : List String) (hw : b.marker ∈ w) :
+    ∃ r, rawOf (expected w segs) b.marker = some r ∧ rowsOf b 81 r = (records items).map (convertRow b.fields) := by
+  obtain ⟨pre, post, h, mk, f, rfl, hmk, hfirst⟩ := hfb
+  obtain ⟨r, hr, _, hrows⟩ := file_block_rows b w hw 81 hs hl pre post h mk ps f items hmk hfirst hitems
+  exact ⟨r, hr, by simp only [rowsOf, hrows]⟩
+
+/-- every record of a table has the same keys: the validated names of the table's fields -/
+theorem keys_convertRow (fs : List FieldDef) (cells : List (Align × Str)) (hlen : cells.length = fs.length) :
+    keys (convertRow fs cells) = (kept fs).map fun fd => validName fd.name := by
+  unfold convertRow keys kept
+  rw [List.map_map]
+  have hfst : (fs.zip (cells.map (·.2))).map (·.1) = fs := List.map_fst_zip (by simp [hlen])
+  have : ((fs.zip (cells.map (·.2))).filter fun x => decide (x.1.dtype ≠ DType.skip)).map
+      ((fun x : String × Cell => x.1) ∘ fun x : FieldDef × Str => (validName x.1.name, convertCell x.1 x.2)) =
+      (((fs.zip (cells.map (·.2))).map (·.1)).filter fun fd => decide (fd.dtype ≠ DType.skip)).map fun fd => validName fd.name := by
+    rw [List.filter_map, List.map_map]
+    rfl
+  rw [this, hfst]
+
+/-- **file_roundtrip (default blocks of sinex_tro)**: `data[MARKER]` is the column dictionary over exactly the written
+records of the first block of that marker -/
+theorem tro_file_default (header : List FieldDef) (pre post : List BlockDef) (b : BlockDef) (hk : b.kind = .dflt)
+    (hs : Sorted (layoutOf b.fields 81) = true) (hl : leadOk (layoutOf b.fields 81) = true)
+    (F : SnxFile) (hwf : F.wf) (ps : List Str) (items : List Item) (hitems : ∀ i ∈ items, i.wf b.fields 81)
+    (hfb : FirstBlock F.segs b.marker ps (content b.fields 81 items))
+    (hpre : ∀ b' ∈ pre, b.marker ∉ troKeys (rawOf (expected ((pre ++ b :: post).map (·.marker)) F.segs)) b')
+    (hpost : ∀ b' ∈ post, b.marker ∉ troKeys (rawOf (expected ((pre ++ b :: post).map (·.marker)) F.segs)) b')
+    (R : Result) (hR : parseTroFile header (pre ++ b :: post) F.text = some R) :
+    ∃ D, R.data = .dict D ∧
+      dget? D b.marker = some (.dict (columns b.fields ((records items).map (convertRow b.fields)))) := by
+  obtain ⟨_, D, hRD, hD⟩ := parseTro_file header _ F hwf R hR
+  obtain ⟨r, hr, hrows⟩ := file_rows b hs hl F.segs ps items hitems hfb ((pre ++ b :: post).map (·.marker)) (by simp)
+  refine ⟨D, hRD, ?_⟩
+  rw [tro_default_block _ pre post b hk hpre hpost r hr D hD, hrows]
+
+/-! ## 17. The remaining entries from the file text (sinex_tms), and discontinuities / events site by site -/
+
+/-- **TIMESERIES/COLUMNS from the file**: `data["timeseries_columns"]` is the table of the written records -/
+theorem tms_file_columns (header : List FieldDef) (pre post : List BlockDef) (b : BlockDef) (q : String)
+    (hk : b.kind = .custom q) (hq : entryName q = "timeseries_columns")
+    (hpre : ∀ b' ∈ pre, OtherKey "timeseries_columns" b') (hpost : ∀ b' ∈ post, OtherKey "timeseries_columns" b')
+    (F : SnxFile) (hwf : F.wf) (W : Nat) (recs : List (Bool × List (Align × Str))) (hok : RecsOk b.fields W recs)
+    (ps : List Str) (hfb : FirstBlock F.segs b.marker ps (emitted b.fields W recs))
+    (R : Result) (hR : parseTmsFile header (pre ++ b :: post) F.text = some R) :
+    ∃ D, R.data = .dict D ∧
+      dget? D "timeseries_columns" = some (.dict (columns b.fields (recs.map fun r => convertRow b.fields r.2))) := by
+  obtain ⟨_, D, hRD, hD⟩ := parseTms_file header _ F hwf R hR
+  obtain ⟨r, hr, _, _, hrows⟩ := tms_file_rows b W recs hok F.segs ps hfb ((pre ++ b :: post).map (·.marker)) (by simp)
+  exact ⟨D, hRD, by rw [tms_columns_block _ pre post b q hk hq hpre hpost r hr D hD, hrows]⟩
+
+/-- **TIMESERIES/REF_COORDINATE from the file**: the block holds one record; `data["ref_coordinate"]` is its dictionary -/
+theorem tms_file_ref_coordinate (header : List FieldDef) (pre post : List BlockDef) (b : BlockDef) (q : String)
+    (hk : b.kind = .custom q) (hq : entryName q = "timeseries_ref_coordinate")
+    (hpre : ∀ b' ∈ pre, OtherKey "ref_coordinate" b') (hpost : ∀ b' ∈ post, OtherKey "ref_coordinate" b')
+    (F : SnxFile) (hwf : F.wf) (W : Nat) (rec : Bool × List (Align × Str)) (hok : RecsOk b.fields W [rec])
+    (ps : List Str) (hfb : FirstBlock F.segs b.marker ps (emitted b.fields W [rec]))
+    (R : Result) (hR : parseTmsFile header (pre ++ b :: post) F.text = some R) :
+    ∃ D, R.data = .dict D ∧ dget? D "ref_coordinate" = some (rowVal (convertRow b.fields rec.2)) := by
+  obtain ⟨_, D, hRD, hD⟩ := parseTms_file header _ F hwf R hR
+  obtain ⟨r, hr, _, _, hrows⟩ := tms_file_rows b W [rec] hok F.segs ps hfb ((pre ++ b :: post).map (·.marker)) (by simp)
+  exact ⟨D, hRD, tms_ref_block _ pre post b q hk hq hpre hpost r hr _ (by simpa using hrows) D hD⟩
+
+/-- **SITE/ANTENNA from the file**: one dictionary per written record, in order, the antenna field split in two -/
+theorem tms_file_antenna (header : List FieldDef) (pre post : List BlockDef) (b : BlockDef) (q : String)
+    (hk : b.kind = .custom q) (hq : entryName q = "site_antenna")
+    (hpre : ∀ b' ∈ pre, OtherKey "site_antenna" b') (hpost : ∀ b' ∈ post, OtherKey "site_antenna" b')
+    (F : SnxFile) (hwf : F.wf) (W : Nat) (recs : List (Bool × List (Align × Str))) (hok : RecsOk b.fields W recs)
+    (ps : List Str) (hfb : FirstBlock F.segs b.marker ps (emitted b.fields W recs))
+    (R : Result) (hR : parseTmsFile header (pre ++ b :: post) F.text = some R) :
+    ∃ D rows', R.data = .dict D ∧ (recs.map fun r => convertRow b.fields r.2).mapM antennaRowTms = some rows' ∧
+      dget? D "site_antenna" = some (.list (rows'.map rowVal)) := by
+  obtain ⟨_, D, hRD, hD⟩ := parseTms_file header _ F hwf R hR
+  obtain ⟨r, hr, _, _, hrows⟩ := tms_file_rows b W recs hok F.segs ps hfb ((pre ++ b :: post).map (·.marker)) (by simp)
+  obtain ⟨rows', hm, hget⟩ := tms_antenna_block _ pre post b q hk hq hpre hpost r hr D hD
+  rw [hrows] at hm
+  exact ⟨D, rows', hRD, hm, hget⟩
+
+/-- **FILE/REFERENCE from the file**: the dictionary `parse_file_reference` makes of the written records -/
+theorem tms_file_reference (header : List FieldDef) (pre post : List BlockDef) (b : BlockDef) (q : String)
+    (hk : b.kind = .custom q) (hq : entryName q = "file_reference")
+    (hpre : ∀ b' ∈ pre, OtherKey "file_reference" b') (hpost : ∀ b' ∈ post, OtherKey "file_reference" b')
+    (F : SnxFile) (hwf : F.wf) (W : Nat) (recs : List (Bool × List (Align × Str))) (hok : RecsOk b.fields W recs)
+    (ps : List Str) (hfb : FirstBlock F.segs b.marker ps (emitted b.fields W recs))
+    (R : Result) (hR : parseTmsFile header (pre ++ b :: post) F.text = some R) :
+    ∃ D d, R.data = .dict D ∧ fileRefTms (recs.map fun r => convertRow b.fields r.2) = some d ∧
+      dget? D "file_reference" = some (.dict d) := by
+  obtain ⟨_, D, hRD, hD⟩ := parseTms_file header _ F hwf R hR
+  obtain ⟨r, hr, _, _, hrows⟩ := tms_file_rows b W recs hok F.segs ps hfb ((pre ++ b :: post).map (·.marker)) (by simp)
+  obtain ⟨d, hd, hget⟩ := tms_file_reference_block _ pre post b q hk hq hpre hpost r hr D hD
+  rw [hrows] at hd
+  exact ⟨D, d, hRD, hd, hget⟩
+
+/-- one FILE/REFERENCE record: key = lower-cased first word of the first field, value = the second field -/
+theorem fileRefTms_get (rows : List Row) (d : List (String × Val)) (h : fileRefTms rows = some d) (k : String) :
+    dget? d k =
+      match (rows.filter fun r => ((split (cellStr ((r.getD 0 ("", .none)).2))).head?.map fun w => asString (lower w)) = some k).getLast? with
+      | some row => some (.cell ((row.getD 1 ("", .none)).2))
+      | Option.none => Option.none := by
+  unfold fileRefTms at h
+  suffices H : ∀ (rows : List Row) (acc d : List (String × Val)),
+      rows.foldlM (fun D r =>
+        match split (cellStr ((r.getD 0 ("", .none)).2)) with
+        | [] => Option.none
+        | w :: _ => some (dset D (asString (lower w)) (.cell ((r.getD 1 ("", .none)).2)))) acc = some d →
+      dget? d k =
+        match (rows.filter fun r => ((split (cellStr ((r.getD 0 ("", .none)).2))).head?.map fun w => asString (lower w)) = some k).getLast? with
+        | some row => some (.cell ((row.getD 1 ("", .none)).2))
+        | Option.none => dget? acc k from H rows [] d h
+  intro rows
+  induction rows with
+  | nil =>
+    intro acc d h
+    simp only [List.foldlM_nil, Option.pure_def, Option.some.injEq] at h
+    subst h; rfl
+  | cons r rest ih =>
+    intro acc d h
+    rw [List.foldlM_cons] at h
+    cases hs : split (cellStr ((r.getD 0 ("", .none)).2)) with
+    | nil => rw [hs] at h; simp at h
+    | cons w ws =>
+      rw [hs] at h
+      simp only [Option.bind_eq_bind, Option.bind_some] at h
+      rw [ih _ d h]
+      by_cases hk : asString (lower w) = k
+      · subst hk
+        simp only [List.filter_cons, hs, List.head?_cons, Option.map_some, decide_true, if_true, List.getLast?_cons]
+        cases (rest.filter _).getLast? with
+        | none => simp only [Option.getD_none]; exact dget_dset_self _ _ _
+        | some x => simp
+      · have hk' : ¬ (some (asString (lower w)) = some k) := by simpa using hk
+        simp only [List.filter_cons, hs, List.head?_cons, Option.map_some, hk', decide_false, Bool.false_eq_true, if_false]
+        cases (rest.filter _).getLast? with
+        | none => exact dget_dset_ne _ _ _ _ hk
+        | some x => rfl
+
+/-- **discontinuities / events from the file, site by site**: in the table the parser returns for the file of
+`disc_file_roundtrip`, site `k` holds exactly the written records whose lower-cased site code is `k` (without
+that field), in file order — each record under its own site, no other -/
+theorem disc_file_site_rows (b : BlockDef) (q : String) (items : List Item) (k : String) :
+    entryRows (entryName q)
+      (regroup false (entryName q) siteKey dropSiteCode [] ((records items).map (convertRow b.fields))) k =
+      (((records items).map (convertRow b.fields)).filter fun r => siteKey r = k).map dropSiteCode :=
+  disc_site_rows _ _ k
+
 end Midgard.Props.C14
 
 #print axioms Midgard.Props.C14.starts_sorted
@@ -2349,3 +4107,92 @@ end Midgard.Props.C14
 #print axioms Midgard.Props.C14.tms_site_block
 #print axioms Midgard.Props.C14.emit_lead
 #print axioms Midgard.Props.C14.tms_file_site_block
+#print axioms Midgard.Props.C14.tmsStep_key_other
+#print axioms Midgard.Props.C14.tms_fold_key_other
+#print axioms Midgard.Props.C14.tms_fold_block
+#print axioms Midgard.Props.C14.mem_keys_dset
+#print axioms Midgard.Props.C14.keys_dset_nodup
+#print axioms Midgard.Props.C14.dset_new
+#print axioms Midgard.Props.C14.foldl_dset_append
+#print axioms Midgard.Props.C14.foldlM_dset_keys
+#print axioms Midgard.Props.C14.foldlM_step_keys
+#print axioms Midgard.Props.C14.tmsData_keys
+#print axioms Midgard.Props.C14.tmsStep_columns
+#print axioms Midgard.Props.C14.tmsStep_ref
+#print axioms Midgard.Props.C14.tmsStep_antenna
+#print axioms Midgard.Props.C14.tmsStep_file_reference
+#print axioms Midgard.Props.C14.tmsStep_data
+#print axioms Midgard.Props.C14.firstBlock_look
+#print axioms Midgard.Props.C14.parseTms_file
+#print axioms Midgard.Props.C14.tms_file_rows
+#print axioms Midgard.Props.C14.tms_columns_block
+#print axioms Midgard.Props.C14.tms_ref_block
+#print axioms Midgard.Props.C14.tms_ref_block_raises
+#print axioms Midgard.Props.C14.tms_antenna_block
+#print axioms Midgard.Props.C14.antennaRowTms_spec
+#print axioms Midgard.Props.C14.tms_file_reference_block
+#print axioms Midgard.Props.C14.tms_columns_table
+#print axioms Midgard.Props.C14.tmsNames_columns
+#print axioms Midgard.Props.C14.columns_name_record
+#print axioms Midgard.Props.C14.tms_data_block
+#print axioms Midgard.Props.C14.tms_file_data_roundtrip
+#print axioms Midgard.Props.C14.entryRows_addRow_false
+#print axioms Midgard.Props.C14.entryRows_addRow_true
+#print axioms Midgard.Props.C14.entryRows_addRow_other
+#print axioms Midgard.Props.C14.entryRows_regroup_false
+#print axioms Midgard.Props.C14.entryRows_regroup_true
+#print axioms Midgard.Props.C14.entryRows_regroup_other
+#print axioms Midgard.Props.C14.disc_site_rows
+#print axioms Midgard.Props.C14.siteStep_entry
+#print axioms Midgard.Props.C14.site_fold_entry
+#print axioms Midgard.Props.C14.dget_map_val
+#print axioms Midgard.Props.C14.addRefFrame_eq
+#print axioms Midgard.Props.C14.entryRows_addRefFrame
+#print axioms Midgard.Props.C14.siteStep_frame_other
+#print axioms Midgard.Props.C14.site_fold_frame_other
+#print axioms Midgard.Props.C14.site_fold_frame
+#print axioms Midgard.Props.C14.refFrame_eq
+#print axioms Midgard.Props.C14.refStep_skip
+#print axioms Midgard.Props.C14.refFrame_value
+#print axioms Midgard.Props.C14.length_allRows_addRow_true
+#print axioms Midgard.Props.C14.singleInv_addRow_true
+#print axioms Midgard.Props.C14.hasE_addRow_true
+#print axioms Midgard.Props.C14.count_regroup_true
+#print axioms Midgard.Props.C14.site_id_count
+#print axioms Midgard.Props.C14.parseSite_file
+#print axioms Midgard.Props.C14.contrib_other
+#print axioms Midgard.Props.C14.flatMap_contrib_single
+#print axioms Midgard.Props.C14.contrib_file
+#print axioms Midgard.Props.C14.filter_key_nodup
+#print axioms Midgard.Props.C14.site_file_site_id
+#print axioms Midgard.Props.C14.site_file_entry
+#print axioms Midgard.Props.C14.site_file_frame
+#print axioms Midgard.Props.C14.foldl_desc_other
+#print axioms Midgard.Props.C14.foldl_sol_other
+#print axioms Midgard.Props.C14.troStep_other
+#print axioms Midgard.Props.C14.tro_fold_other
+#print axioms Midgard.Props.C14.tro_fold_block
+#print axioms Midgard.Props.C14.tro_default_block
+#print axioms Midgard.Props.C14.foldl_desc_get
+#print axioms Midgard.Props.C14.tro_description
+#print axioms Midgard.Props.C14.updateRow_eq
+#print axioms Midgard.Props.C14.filterMap_cells
+#print axioms Midgard.Props.C14.cellsOf_rowVal
+#print axioms Midgard.Props.C14.cellsOf_none
+#print axioms Midgard.Props.C14.dset_mid
+#print axioms Midgard.Props.C14.foldl_dset_same
+#print axioms Midgard.Props.C14.updateRow_same
+#print axioms Midgard.Props.C14.updateRow_nil
+#print axioms Midgard.Props.C14.solStep_get
+#print axioms Midgard.Props.C14.foldl_sol_get
+#print axioms Midgard.Props.C14.tro_solution
+#print axioms Midgard.Props.C14.parseTro_file
+#print axioms Midgard.Props.C14.file_rows
+#print axioms Midgard.Props.C14.keys_convertRow
+#print axioms Midgard.Props.C14.tro_file_default
+#print axioms Midgard.Props.C14.tms_file_columns
+#print axioms Midgard.Props.C14.tms_file_ref_coordinate
+#print axioms Midgard.Props.C14.tms_file_antenna
+#print axioms Midgard.Props.C14.tms_file_reference
+#print axioms Midgard.Props.C14.fileRefTms_get
+#print axioms Midgard.Props.C14.disc_file_site_rows
